@@ -266,6 +266,7 @@ End NoPanic.
 (** * 2. Reader algebra *)
 
 From Ztyp Require BitfieldsProofs.
+Module BP := BitfieldsProofs.
 
 Lemma two32_eq : two32 = 2 ^ 32.
 Proof. reflexivity. Qed.
@@ -889,6 +890,12 @@ Ltac obindS H E :=
     destruct r eqn:E; cbn [obind] in H; [|discriminate H]
   end.
 
+Ltac ifErr H :=
+  match type of H with
+  | (if ?c then Err else _) = OK _ => destruct c eqn:?; [discriminate H|]
+  | (if ?c then None else _) = Some _ => destruct c eqn:?; [discriminate H|]
+  end.
+
 (* ---- series of fixed-size elements ---- *)
 Section FixedSeries.
 Variables (dec : decoder) (sd : sdecoder) (ok : N -> Prop) (size : N).
@@ -1454,11 +1461,6 @@ Proof.
 Qed.
 
 (* ---- single types ---- *)
-Ltac ifErr H :=
-  match type of H with
-  | (if ?c then Err else _) = OK _ => destruct c eqn:?; [discriminate H|]
-  | (if ?c then None else _) = Some _ => destruct c eqn:?; [discriminate H|]
-  end.
 
 Lemma r2o_some {A} (r : res A) a : r2o r = Some a -> r = OK a.
 Proof. destruct r; cbn; intros H; inversion H; reflexivity. Qed.
@@ -1544,11 +1546,12 @@ Proof.
   - intros st d n st' Hinv _ H. cbn [view_deser] in H. ifErr H. ifErr H.
     bindOK H E. destruct a as [[bs st1] d1]. ifErr H.
     destruct (read_fwd _ _ _ _ _ _ Hinv E) as (R1 & R2 & R3 & R4 & _).
-    split; [exact R2|]. split; [exact R4|]. cbn [sdec].
-    rewrite (slice_len _ _ _ R2), <- R3, Heqb, Heqb0, Heqb1.
+    cbn [sdec]. rewrite (slice_len _ _ _ R2), <- R3, Heqb, Heqb0, Heqb1.
     destruct ((dr_scope d =? 1) && (N_of_byte (last bs b0) =? 1)).
-    + bindOK H E2. injection H as <- <-. rewrite E2. reflexivity.
-    + ifErr H. bindOK H E2. injection H as <- <-. rewrite E2. reflexivity.
+    + bindOK H E2. injection H as <- <-.
+      split; [exact R2|]. split; [exact R4|]. reflexivity.
+    + ifErr H. bindOK H E2. injection H as <- <-.
+      split; [exact R2|]. split; [exact R4|]. reflexivity.
   - intros st d n Hinv _ Ha H. cbn [sdec] in H.
     rewrite (slice_len _ _ _ Ha) in H. ifErr H. ifErr H. ifErr H.
     destruct (dr_read_bwd st d (dr_scope d) Hinv ltac:(lia) Ha) as (st' & d' & E).
@@ -1558,4 +1561,1470 @@ Proof.
     + apply r2o_some in H. rewrite H. reflexivity.
     + ifErr H. obindS H E2. apply r2o_some in E2. injection H as <-.
       rewrite E2. reflexivity.
+Qed.
+
+(* ---- size metadata facts ---- *)
+Lemma sizes_ok_max t : sizes_ok t = true -> spec_max_len t < two64.
+Proof.
+  intros H. rewrite two64_eq. apply N.ltb_lt.
+  destruct t; cbn [sizes_ok] in H; apply andb_prop in H; exact (proj1 H).
+Qed.
+
+Lemma info_ok_of t : small_params t = true -> sizes_ok t = true -> info_ok t.
+Proof. intros H1 H2. apply info_sizes_gen; [exact H1|apply sizes_ok_max, H2]. Qed.
+
+Lemma scope_lt32 st d : rinv st d -> dr_scope d < two32.
+Proof. intros (_ & H1 & H2). unfold dr_scope. lia. Qed.
+
+Lemma N_of_nat_of n : N.of_nat (nat_of n) = n.
+Proof. apply N2Nat.id. Qed.
+
+Lemma vector_fixed_size e n :
+  small_params (TVector e n) = true -> sizes_ok (TVector e n) = true ->
+  ti_fixed (info e) = true ->
+  ti_size (info (TVector e n)) = n * ti_size (info e).
+Proof.
+  intros Hsp Hso Hfx. destruct (info_ok_of _ Hsp Hso) as (_ & _ & ->).
+  cbn [small_params sizes_ok] in Hsp, Hso. apply andb_prop in Hsp, Hso.
+  destruct (info_ok_of e (proj2 Hsp) (proj2 Hso)) as (_ & _ & ->).
+  rewrite info_fixed_flag in Hfx. cbn [spec_fixed_len]. rewrite Hfx. reflexivity.
+Qed.
+
+Lemma pow56_lt : 4 * 2 ^ 56 < two64.
+Proof. rewrite two64_eq. change (2 ^ 64) with (2 ^ 8 * 2 ^ 56). 
+  assert (0 < 2 ^ 56) by (apply pow2_pos). change (2 ^ 8) with 256. lia. Qed.
+
+Lemma mul64_4 n : n <= 2 ^ 56 -> mul64 n 4 = 4 * n.
+Proof. intros H. pose proof pow56_lt. rewrite mul64_small by lia. lia. Qed.
+
+Lemma sim_vector e n :
+  wf_ty (TVector e n) = true -> small_params (TVector e n) = true ->
+  sizes_ok (TVector e n) = true -> sim_ty e -> sim_ty (TVector e n).
+Proof.
+  intros Hwf Hsp Hso [Hfe Hbe].
+  pose proof Hsp as Hsp'. cbn [small_params] in Hsp'. apply andb_prop in Hsp'.
+  destruct Hsp' as [Hn56 _]. apply N.leb_le in Hn56.
+  pose proof Hwf as Hwf'. cbn [wf_ty] in Hwf'. apply andb_prop in Hwf'.
+  destruct Hwf' as [Hn1 _]. apply N.leb_le in Hn1.
+  split.
+  - intros st d nd st' Hinv _ H. pose proof (scope_lt32 _ _ Hinv) as Hs32.
+    cbn [view_deser] in H. cbn [sdec].
+    destruct (is_basic_elem e) eqn:Hbasic; [|destruct (ti_fixed (info e)) eqn:Hfx].
+    + ifErr H. bindOK H E. destruct a as [[bs st1] d1]. bindOK H E2. injection H as <- <-.
+      destruct (read_fwd _ _ _ _ _ _ Hinv E) as (R1 & R2 & R3 & R4 & _).
+      split; [exact R2|]. split; [exact R4|].
+      rewrite (slice_len _ _ _ R2), <- R3, Heqb, E2. reflexivity.
+    + ifErr H. apply negb_false_iff, N.eqb_eq in Heqb.
+      rewrite (vector_fixed_size e n Hsp Hso Hfx) in Heqb.
+      bindOK H E. destruct a as [ns st1]. bindOK H E2. injection H as <- <-.
+      destruct (fixed_series_fwd _ _ _ _ (leaf_ok_fixed e Hfx) Hfe _ _ _ _ _ Hinv E)
+        as (F1 & F2 & F3).
+      rewrite N_of_nat_of, Heqb in F1, F2, F3.
+      split; [exact F1|]. split; [exact F2|].
+      rewrite (slice_len _ _ _ F1). rewrite (vector_fixed_size e n Hsp Hso Hfx), Heqb, N.eqb_refl.
+      cbn [negb]. rewrite F3. cbn [obind]. rewrite E2. reflexivity.
+    + bindOK H E. destruct a as [[offs st1] d1]. ifErr H.
+      apply negb_false_iff, N.eqb_eq in Heqb. rewrite mul64_4 in Heqb by exact Hn56.
+      bindOK H E2. destruct a as [ns st2]. bindOK H E3. injection H as <- <-.
+      destruct (read_offsets_fwd _ _ _ _ _ _ _ Hinv E)
+        as (O1 & O2 & O3 & O4 & O5 & O6 & O7 & O8 & O9 & O10).
+      rewrite N_of_nat_of in *.
+      destruct offs as [|o1 offs]; [cbn [length] in O7; unfold nat_of in O7; lia|].
+      cbn [hd] in Heqb. subst o1. destruct O8 as [_ O8].
+      destruct (var_elems_fwd _ _ _ (fun s => leaf_ok_var e s Hfx) Hfe _ _ _ _ _ _ _ O4 Hs32 O8
+                  (Forall_inv_tail O9) (Forall_inv O9) E2) as (V1 & V2 & V3 & V4).
+      pose proof (sorted_head_le_last _ _ 0 O8) as Hl.
+      destruct Hinv as ((Hnd & HF) & Hinv'). rewrite O6 in *.
+      rewrite (avail_adv _ _ _ _ HF O3) in V2.
+      split; [lia|].
+      split; [apply (adv_eq _ _ (4 * n + (dr_scope d - 4 * n))); [lia|]; eapply adv_trans; eassumption|].
+      rewrite (O10 (dr_scope d)) by lia. cbn [obind hd].
+      rewrite mul64_4, N.eqb_refl by exact Hn56. cbn [negb].
+      rewrite (slice_len st (d_chain d) (dr_scope d)) by lia.
+      rewrite V4. cbn [obind]. rewrite E3. reflexivity.
+  - intros st d nd Hinv _ Ha H. pose proof (scope_lt32 _ _ Hinv) as Hs32.
+    cbn [sdec] in H. cbn [view_deser]. rewrite (slice_len _ _ _ Ha) in H.
+    destruct (is_basic_elem e) eqn:Hbasic; [|destruct (ti_fixed (info e)) eqn:Hfx].
+    + ifErr H. apply r2o_some in H.
+      destruct (dr_read_bwd st d (dr_scope d) Hinv ltac:(lia) Ha) as (st' & d' & E).
+      exists st'. rewrite E. cbn [bind]. fold (slice st (dr_scope d)). rewrite H. reflexivity.
+    + ifErr H. pose proof Heqb as Heqb'. apply negb_false_iff, N.eqb_eq in Heqb.
+      rewrite (vector_fixed_size e n Hsp Hso Hfx) in Heqb.
+      obindS H E. apply r2o_some in H.
+      destruct (fixed_series_bwd _ _ _ _ (leaf_ok_fixed e Hfx) (conj Hfe Hbe) (nat_of n) st d l Hinv)
+        as (st1 & E1).
+      * destruct (N.eq_dec n 0); [lia|]. nia.
+      * rewrite N_of_nat_of, Heqb. exact Ha.
+      * rewrite N_of_nat_of, Heqb. exact E.
+      * exists st1. rewrite E1. cbn [bind]. rewrite H. reflexivity.
+    + obindS H E. destruct p as [offs rest]. ifErr H.
+      pose proof Heqb as Heqb'. apply negb_false_iff, N.eqb_eq in Heqb.
+      rewrite mul64_4 in Heqb by exact Hn56.
+      obindS H E2. apply r2o_some in H.
+      destruct (read_offsets_bwd _ _ _ _ _ _ _ Hinv (N.le_refl _) Ha E) as (st1 & d1 & E1).
+      destruct (read_offsets_fwd _ _ _ _ _ _ _ Hinv E1)
+        as (O1 & O2 & O3 & O4 & O5 & O6 & O7 & O8 & O9 & O10).
+      rewrite N_of_nat_of in *.
+      destruct offs as [|o1 offs]; [cbn [length] in O7; unfold nat_of in O7; lia|].
+      cbn [hd] in Heqb. subst o1. destruct O8 as [_ O8].
+      rewrite (O10 (dr_scope d) O1) in E. injection E as <-.
+      destruct Hinv as ((Hnd & HF) & Hinv'). 
+      destruct (var_elems_bwd _ _ _ (fun s => leaf_ok_var e s Hfx) (conj Hfe Hbe) _ _ _ st1 d1 l O4 Hs32 O8
+                  (Forall_inv_tail O9) (Forall_inv O9)) as (st2 & E3); [lia| |exact E2|].
+      { rewrite O6, (avail_adv _ _ _ _ HF O3). lia. }
+      exists st2. rewrite E1. cbn [bind]. rewrite Heqb'. rewrite E3. cbn [bind].
+      rewrite H. reflexivity.
+Qed.
+
+Lemma list_len_exact scope esz : scope < two64 ->
+  mul64 (scope / esz) esz = scope -> scope / esz * esz = scope.
+Proof.
+  intros Hs H. assert (Hle : scope / esz * esz <= scope).
+  { destruct (N.eq_dec esz 0) as [->|Hz]; [lia|].
+    rewrite N.mul_comm. apply N.mul_div_le. exact Hz. }
+  rewrite mul64_small in H by lia. exact H.
+Qed.
+
+Lemma default_node_list e n :
+  default_node zh (TList e n) = OK (Pair (zleaf zh (contents_depth (TList e n))) (zleaf zh 0)).
+Proof. reflexivity. Qed.
+
+Lemma sim_list e n :
+  wf_ty (TList e n) = true -> small_params (TList e n) = true ->
+  sizes_ok (TList e n) = true -> sim_ty e -> sim_ty (TList e n).
+Proof.
+  intros Hwf Hsp Hso [Hfe Hbe]. pose proof two32_lt_two64 as H3264.
+  split.
+  - intros st d nd st' Hinv _ H. pose proof (scope_lt32 _ _ Hinv) as Hs32.
+    cbn [view_deser] in H. cbn [sdec]. rewrite default_node_list in *.
+    destruct (is_basic_elem e) eqn:Hbasic;
+      [|destruct (dr_scope d =? 0) eqn:Hs0; [|destruct (ti_fixed (info e)) eqn:Hfx]].
+    + ifErr H. ifErr H. apply negb_false_iff, N.eqb_eq in Heqb0.
+      destruct (dr_scope d / ti_size (info e) =? 0) eqn:Hlen0.
+      * cbn [bind] in H. injection H as <- <-. apply N.eqb_eq in Hlen0.
+        assert (Hsc0 : dr_scope d = 0) by (rewrite Hlen0, mul64_0_l in Heqb0; lia).
+        rewrite Hsc0 in Heqb, Hlen0 |- *.
+        split; [lia|]. split; [apply adv_refl|]. rewrite slice_0.
+        change (lenN (@nil byte)) with 0. rewrite Heqb, Hlen0, mul64_0_l. reflexivity.
+      * bindOK H E. destruct a as [[bs st1] d1]. bindOK H E2. injection H as <- <-.
+        destruct (read_fwd _ _ _ _ _ _ Hinv E) as (R1 & R2 & R3 & R4 & _).
+        split; [exact R2|]. split; [exact R4|].
+        rewrite (slice_len _ _ _ R2), <- R3, Heqb, Heqb0, N.eqb_refl, Hlen0. cbn [negb].
+        rewrite E2. reflexivity.
+    + cbn [bind] in H. injection H as <- <-. apply N.eqb_eq in Hs0. rewrite Hs0.
+      split; [lia|]. split; [apply adv_refl|]. reflexivity.
+    + ifErr H. ifErr H. pose proof Heqb0 as Heqb0'. apply negb_false_iff, N.eqb_eq in Heqb0.
+      apply list_len_exact in Heqb0; [|lia].
+      bindOK H E. destruct a as [ns st1]. bindOK H E2. injection H as <- <-.
+      destruct (fixed_series_fwd _ _ _ _ (leaf_ok_fixed e Hfx) Hfe _ _ _ _ _ Hinv E)
+        as (F1 & F2 & F3).
+      rewrite N_of_nat_of, Heqb0 in F1, F2, F3.
+      split; [exact F1|]. split; [exact F2|].
+      rewrite (slice_len _ _ _ F1), Hs0, Heqb, Heqb0', F3. cbn [obind]. rewrite E2. reflexivity.
+    + bindOK H E. destruct a as [[first st1] d1]. ifErr H. ifErr H. ifErr H.
+      apply negb_false_iff, N.eqb_eq in Heqb. apply orb_false_elim in Heqb1.
+      destruct Heqb1 as [Hf0 Hfs]. apply N.eqb_neq in Hf0. apply N.ltb_ge in Hfs.
+      bindOK H E2. destruct a as [[offs st2] d2]. bindOK H E3. destruct a as [ns st3].
+      bindOK H E4. injection H as <- <-.
+      destruct (read_u32_fwd _ _ _ _ _ Hinv E) as (R1 & R2 & R3 & R4 & R5 & R6 & R7).
+      destruct (read_offsets_fwd _ _ _ _ _ _ _ R5 E2)
+        as (O1 & O2 & O3 & O4 & O5 & O6 & O7 & O8 & O9 & O10).
+      rewrite N_of_nat_of in *.
+      assert (Hfirst : 4 + 4 * (first / 4 - 1) = first).
+      { pose proof (N.div_mod first 4 ltac:(lia)) as Hdm. rewrite Heqb in Hdm.
+        assert (first / 4 <> 0) by (intros Hz; rewrite Hz in Hdm; lia). lia. }
+      destruct (var_elems_fwd _ _ _ (fun s => leaf_ok_var e s Hfx) Hfe _ _ _ _ _ _ _ O4 Hs32 O8 O9
+                  ltac:(lia) E3) as (V1 & V2 & V3 & V4).
+      destruct Hinv as ((Hnd & HF) & Hinv'). rewrite O6, R7 in *.
+      pose proof (chain_ok_adv _ _ _ _ _ (conj Hnd HF) R4) as [_ HF1].
+      rewrite (avail_adv _ _ _ _ HF1 O3), (avail_adv _ _ _ _ HF R4) in V2.
+      rewrite (avail_adv _ _ _ _ HF R4) in O2.
+      assert (Ha : dr_scope d <= avail st (d_chain d)) by lia.
+      split; [exact Ha|].
+      split.
+      { apply (adv_eq _ _ (4 + (4 * (first / 4 - 1) + (dr_scope d - first)))); [lia|].
+        eapply adv_trans; [exact R4|]. eapply adv_trans; eassumption. }
+      rewrite (slice_len _ _ _ Ha), Hs0.
+      destruct (N.ltb_spec (dr_scope d) 4); [lia|].
+      rewrite <- nat_of_4, slice_firstn by lia. rewrite <- R3, Heqb, N.eqb_refl. cbn [negb].
+      rewrite Heqb0.
+      destruct (N.eqb_spec first 0); [lia|]. destruct (N.ltb_spec (dr_scope d) first); [lia|].
+      cbn [orb].
+      rewrite (slice_skipn _ _ _ _ _ R4), (O10 (dr_scope d - 4)) by lia. cbn [obind].
+      replace (dr_scope d - 4 - 4 * (first / 4 - 1)) with (dr_scope d - first) by lia.
+      rewrite V4. cbn [obind]. rewrite E4. reflexivity.
+  - intros st d nd Hinv _ Ha H. pose proof (scope_lt32 _ _ Hinv) as Hs32.
+    cbn [sdec] in H. cbn [view_deser]. rewrite (slice_len _ _ _ Ha) in H.
+    rewrite default_node_list in *.
+    destruct (is_basic_elem e) eqn:Hbasic;
+      [|destruct (dr_scope d =? 0) eqn:Hs0; [|destruct (ti_fixed (info e)) eqn:Hfx]].
+    + ifErr H. ifErr H.
+      destruct (dr_scope d / ti_size (info e) =? 0) eqn:Hlen0.
+      * cbn [r2o] in H. injection H as <-. exists st. reflexivity.
+      * obindS H E. apply r2o_some in E. injection H as <-.
+        destruct (dr_read_bwd st d (dr_scope d) Hinv ltac:(lia) Ha) as (st' & d' & E1).
+        exists st'. rewrite E1. cbn [bind]. fold (slice st (dr_scope d)). rewrite E. reflexivity.
+    + cbn [r2o] in H. injection H as <-. exists st. reflexivity.
+    + ifErr H. ifErr H. pose proof Heqb0 as Heqb0'. apply negb_false_iff, N.eqb_eq in Heqb0.
+      apply list_len_exact in Heqb0; [|lia].
+      obindS H E. obindS H E2. apply r2o_some in E2. injection H as <-.
+      apply N.eqb_neq in Hs0.
+      destruct (fixed_series_bwd _ _ _ _ (leaf_ok_fixed e Hfx) (conj Hfe Hbe)
+                  (nat_of (dr_scope d / ti_size (info e))) st d l Hinv) as (st1 & E1).
+      * destruct (N.eq_dec (dr_scope d / ti_size (info e)) 0) as [Hz|Hz]; [rewrite Hz in Heqb0; lia|].
+        nia.
+      * rewrite N_of_nat_of, Heqb0. exact Ha.
+      * rewrite N_of_nat_of, Heqb0. exact E.
+      * exists st1. rewrite E1. cbn [bind]. rewrite E2. reflexivity.
+    + destruct (N.ltb_spec (dr_scope d) 4) as [|Hs4]; [discriminate H|].
+      rewrite <- nat_of_4, slice_firstn in H by lia.
+      destruct (read_u32_bwd st d Hinv Hs4 ltac:(lia)) as (st1 & d1 & E1).
+      destruct (read_u32_fwd _ _ _ _ _ Hinv E1) as (R1 & R2 & R3 & R4 & R5 & R6 & R7).
+      rewrite E1. cbn [bind]. set (first := le_val (slice st 4)) in *.
+      ifErr H. ifErr H. ifErr H.
+      apply negb_false_iff, N.eqb_eq in Heqb. apply orb_false_elim in Heqb1.
+      destruct Heqb1 as [Hf0 Hfs]. apply N.eqb_neq in Hf0. apply N.ltb_ge in Hfs.
+      assert (Hfirst : 4 + 4 * (first / 4 - 1) = first).
+      { pose proof (N.div_mod first 4 ltac:(lia)) as Hdm. rewrite Heqb in Hdm.
+        assert (first / 4 <> 0) by (intros Hz; rewrite Hz in Hdm; lia). lia. }
+      obindS H E2. destruct p as [offs rest]. obindS H E3. obindS H E4.
+      apply r2o_some in E4. injection H as <-.
+      rewrite (slice_skipn _ _ _ _ _ R4) in E2.
+      destruct Hinv as ((Hnd & HF) & Hinv').
+      destruct (read_offsets_bwd _ _ _ _ _ _ _ R5 ltac:(rewrite R6; apply N.le_refl)
+                  ltac:(rewrite R7, (avail_adv _ _ _ _ HF R4); lia) E2) as (st2 & d2 & E2').
+      destruct (read_offsets_fwd _ _ _ _ _ _ _ R5 E2')
+        as (O1 & O2 & O3 & O4 & O5 & O6 & O7 & O8 & O9 & O10).
+      rewrite N_of_nat_of in *.
+      rewrite (O10 (dr_scope d - 4)) in E2 by lia. injection E2 as <-.
+      replace (dr_scope d - 4 - 4 * (first / 4 - 1)) with (dr_scope d - first) in E3 by lia.
+      pose proof (chain_ok_adv _ _ _ _ _ (conj Hnd HF) R4) as [_ HF1].
+      destruct (var_elems_bwd _ _ _ (fun s => leaf_ok_var e s Hfx) (conj Hfe Hbe) _ _ _ st2 d2 l O4 Hs32 O8 O9
+                  ltac:(lia)) as (st3 & E3'); [lia| |exact E3|].
+      { rewrite R7 in O3, O6. rewrite O6, (avail_adv _ _ _ _ HF1 O3).
+        rewrite (avail_adv _ _ _ _ HF R4). lia. }
+      exists st3. rewrite E2'. cbn [bind]. rewrite E3'. cbn [bind]. rewrite E4. reflexivity.
+Qed.
+
+(* ---- unions ---- *)
+Lemma view_deser_union none opts st d :
+  view_deser zh (TUnion none opts) st d =
+  if dr_scope d =? 0 then Err else
+  do r <- dr_read_byte st d; let '(sel, st1, d1) := r in
+  if wrap8 (union_count none opts) <=? sel then Err else
+  if none && (sel =? 0) then
+    if negb (dr_scope d =? 1) then Err else
+    OK (Pair (Leaf zero_chunk) (Leaf (pad32 [byte_of_N sel])), st1)
+  else
+    pick_ty Panic (fun o =>
+      if ti_fixed (info o) && negb (ti_size (info o) =? dr_scope d - 1) then Err else
+      do r <- view_deser zh o st1 d1; let '(c, st2) := r in
+      OK (Pair c (Leaf (pad32 [byte_of_N sel])), st2))
+    opts (nat_of (if none then sel - 1 else sel)).
+Proof. reflexivity. Qed.
+
+Lemma sdec_union none opts bs :
+  sdec zh (TUnion none opts) bs =
+  if lenN bs =? 0 then None else
+  let sel := le_val (firstn 1 bs) in
+  if wrap8 (union_count none opts) <=? sel then None else
+  if none && (sel =? 0) then
+    if negb (lenN bs =? 1) then None else
+    Some (Pair (Leaf zero_chunk) (Leaf (pad32 [byte_of_N sel])))
+  else
+    pick_ty None (fun o =>
+      if ti_fixed (info o) && negb (ti_size (info o) =? lenN bs - 1) then None else
+      odo c <- sdec zh o (skipn 1 bs);
+      Some (Pair c (Leaf (pad32 [byte_of_N sel]))))
+    opts (nat_of (if none then sel - 1 else sel)).
+Proof. reflexivity. Qed.
+
+Lemma sim_union none opts : Forall sim_ty opts -> sim_ty (TUnion none opts).
+Proof.
+  intros HF. rewrite Forall_forall in HF. split.
+  - intros st d nd st' Hinv _ H. rewrite view_deser_union in H. rewrite sdec_union.
+    ifErr H. bindOK H E. destruct a as [[sel st1] d1]. ifErr H.
+    destruct (read_byte_fwd _ _ _ _ _ Hinv E) as (R1 & R2 & R3 & R4 & R5 & R6 & R7).
+    destruct (none && (sel =? 0)) eqn:Hnone.
+    + ifErr H. injection H as <- <-. apply negb_false_iff, N.eqb_eq in Heqb1. rewrite Heqb1.
+      split; [exact R2|]. split; [exact R4|].
+      rewrite (slice_len _ _ _ R2). cbn [N.eqb Pos.eqb negb]. cbv zeta.
+      rewrite <- nat_of_1, slice_firstn by lia. rewrite <- R3, Heqb0, Hnone. reflexivity.
+    + rewrite pick_ty_nth_error in H.
+      destruct (nth_error opts (nat_of (if none then sel - 1 else sel))) as [o|] eqn:Eo;
+        [|discriminate H].
+      destruct (HF o (nth_error_In _ _ Eo)) as [Hfo _].
+      destruct (ti_fixed (info o) && negb (ti_size (info o) =? dr_scope d - 1)) eqn:Hfx;
+        [discriminate H|].
+      bindOK H E2. destruct a as [c st2]. injection H as <- <-.
+      assert (Hlo : leaf_ok o (dr_scope d1)).
+      { rewrite R6. destruct (ti_fixed (info o)) eqn:Hf; [|apply leaf_ok_var; exact Hf].
+        cbn [andb] in Hfx. apply negb_false_iff, N.eqb_eq in Hfx. rewrite <- Hfx.
+        apply leaf_ok_fixed. exact Hf. }
+      destruct (Hfo _ _ _ _ R5 Hlo E2) as (F1 & F2 & F3). rewrite R6, R7 in *.
+      destruct Hinv as ((Hnd & HF0) & Hinv'). rewrite (avail_adv _ _ _ _ HF0 R4) in F1.
+      assert (Ha : dr_scope d <= avail st (d_chain d)) by lia.
+      split; [exact Ha|].
+      split; [apply (adv_eq _ _ (1 + (dr_scope d - 1))); [lia|]; eapply adv_trans; eassumption|].
+      rewrite (slice_len _ _ _ Ha), Heqb. cbv zeta.
+      rewrite <- nat_of_1, slice_firstn by lia. rewrite <- R3, Heqb0, Hnone.
+      rewrite pick_ty_nth_error, Eo, Hfx, (slice_skipn _ _ _ _ _ R4), F3. reflexivity.
+  - intros st d nd Hinv _ Ha H. rewrite sdec_union in H. rewrite view_deser_union.
+    rewrite (slice_len _ _ _ Ha) in H. ifErr H. cbv zeta in H.
+    apply N.eqb_neq in Heqb.
+    rewrite <- nat_of_1, slice_firstn in H by lia.
+    destruct (read_byte_bwd st d Hinv ltac:(lia) ltac:(lia)) as (st1 & d1 & E).
+    destruct (read_byte_fwd _ _ _ _ _ Hinv E) as (R1 & R2 & R3 & R4 & R5 & R6 & R7).
+    rewrite E. cbn [bind]. ifErr H.
+    destruct (none && (le_val (slice st 1) =? 0)) eqn:Hnone.
+    + ifErr H. injection H as <-. exists st1. reflexivity.
+    + rewrite pick_ty_nth_error in H. rewrite pick_ty_nth_error.
+      destruct (nth_error opts (nat_of (if none then le_val (slice st 1) - 1 else le_val (slice st 1))))
+        as [o|] eqn:Eo; [|discriminate H].
+      destruct (HF o (nth_error_In _ _ Eo)) as [_ Hbo].
+      destruct (ti_fixed (info o) && negb (ti_size (info o) =? dr_scope d - 1)) eqn:Hfx;
+        [discriminate H|].
+      obindS H E2. injection H as <-.
+      assert (Hlo : leaf_ok o (dr_scope d1)).
+      { rewrite R6. destruct (ti_fixed (info o)) eqn:Hf; [|apply leaf_ok_var; exact Hf].
+        cbn [andb] in Hfx. apply negb_false_iff, N.eqb_eq in Hfx. rewrite <- Hfx.
+        apply leaf_ok_fixed. exact Hf. }
+      rewrite (slice_skipn _ _ _ _ _ R4) in E2.
+      destruct Hinv as ((Hnd & HF0) & Hinv').
+      destruct (Hbo st1 d1 n R5 Hlo) as (st2 & E3).
+      * rewrite R6, R7, (avail_adv _ _ _ _ HF0 R4). lia.
+      * rewrite R6. exact E2.
+      * exists st2. rewrite E3. reflexivity.
+Qed.
+
+(* ---- containers: size metadata ---- *)
+Lemma fld_len_spec f : info_ok f -> fld_len f = fld_fix f.
+Proof.
+  intros (_ & _ & Hs). unfold fld_len, fld_fix. rewrite info_fixed_flag, Hs. reflexivity.
+Qed.
+
+Lemma fp_len_spec fs : Forall info_ok fs -> fp_len fs = sumN (map fld_fix fs).
+Proof.
+  induction 1 as [|f fs Hf _ IH]; [reflexivity|].
+  unfold fp_len in *. cbn [map]. rewrite !sumN_cons, IH, (fld_len_spec f Hf). reflexivity.
+Qed.
+
+Lemma fld_fix_le_max f : fld_fix f <= fld_max f.
+Proof. unfold fld_fix, fld_max. destruct (spec_is_fixed f); lia. Qed.
+
+Lemma container_fp fs : fs <> [] -> Forall info_ok fs -> spec_max_len (TContainer fs) < two64 ->
+  fixed_part_size fs = fp_len fs.
+Proof.
+  intros Hne HF Hmax. unfold fixed_part_size, cont_acc. rewrite (cont_fold_spec fs HF).
+  destruct fs as [|f fs]; [congruence|]. rewrite N.add_0_l, (fp_len_spec _ HF).
+  apply wrap64_small. eapply N.le_lt_trans; [|exact Hmax].
+  cbn [spec_max_len]. apply (sumN_map_le fld_fix fld_max).
+  apply Forall_forall. intros x _. apply fld_fix_le_max.
+Qed.
+
+Lemma nvar_zero_fixed fs : nvar fs = 0 -> Forall (fun f => ti_fixed (info f) = true) fs.
+Proof.
+  induction fs as [|f fs IH]; intros H; [constructor|].
+  unfold nvar in *. cbn [map] in H. rewrite sumN_cons in H. unfold fld_nvar at 1 in H.
+  destruct (ti_fixed (info f)) eqn:Hf; [|lia].
+  constructor; [exact Hf|apply IH; lia].
+Qed.
+
+Lemma container_fixed_minmax fs :
+  Forall info_ok fs -> info_ok (TContainer fs) -> nvar fs = 0 ->
+  ti_min (info (TContainer fs)) = fp_len fs /\ ti_max (info (TContainer fs)) = fp_len fs.
+Proof.
+  intros HF (Hmin & Hmax & _) Hnv. rewrite Hmin, Hmax, (fp_len_spec _ HF).
+  cbn [spec_min_len spec_max_len]. apply nvar_zero_fixed in Hnv.
+  split; apply sumN_map_ext; rewrite Forall_forall in *; intros f Hin;
+    specialize (Hnv f Hin); rewrite info_fixed_flag in Hnv; unfold fld_fix; rewrite Hnv; reflexivity.
+Qed.
+
+Lemma nvar_le fs : 4 * nvar fs <= fp_len fs.
+Proof.
+  induction fs as [|f fs IH]; [cbn; lia|].
+  unfold nvar, fp_len in *. cbn [map]. rewrite !sumN_cons. unfold fld_nvar at 1, fld_len at 1.
+  destruct (ti_fixed (info f)); lia.
+Qed.
+
+Lemma cf_shape_no_offs fs cfs : cf_shape fs cfs -> cf_offs cfs = [] -> nvar fs = 0.
+Proof.
+  induction 1 as [|f c fs cfs Hc _ IH]; intros Ho; [reflexivity|].
+  unfold nvar in *. cbn [map]. rewrite sumN_cons. destruct c as [n|o]; [|discriminate Ho].
+  cbn [cf_shape1] in Hc. cbn [cf_offs] in Ho. unfold fld_nvar at 1. rewrite Hc, (IH Ho). reflexivity.
+Qed.
+
+Lemma forallb_Forall2 (p q : ty -> bool) fs :
+  forallb p fs = true -> forallb q fs = true -> Forall (fun f => p f = true /\ q f = true) fs.
+Proof.
+  intros Hp Hq. rewrite forallb_forall in Hp, Hq. apply Forall_forall. intros x Hx.
+  split; [apply Hp|apply Hq]; exact Hx.
+Qed.
+
+Lemma sim_container fs :
+  wf_ty (TContainer fs) = true -> small_params (TContainer fs) = true ->
+  sizes_ok (TContainer fs) = true -> Forall sim_ty fs -> sim_ty (TContainer fs).
+Proof.
+  intros Hwf Hsp Hso HF.
+  assert (Hio : info_ok (TContainer fs)) by (apply info_ok_of; assumption).
+  pose proof (sizes_ok_max _ Hso) as Hmax.
+  assert (Hios : Forall info_ok fs).
+  { cbn [small_params sizes_ok] in Hsp, Hso. apply andb_prop in Hso. destruct Hso as [_ Hso].
+    pose proof (forallb_Forall2 _ _ _ Hsp Hso) as HH. eapply Forall_impl; [|exact HH].
+    cbv beta. intros f [H1 H2]. apply info_ok_of; assumption. }
+  assert (Hne : fs <> []).
+  { cbn [wf_ty] in Hwf. apply andb_prop in Hwf. destruct Hwf as [Hwf _].
+    destruct fs; [discriminate Hwf|discriminate]. }
+  pose proof (container_fp fs Hne Hios Hmax) as Hfp.
+  assert (HFf : Forall fwd_ty fs) by (eapply Forall_impl; [|exact HF]; intros f [Hf _]; exact Hf).
+  split.
+  - intros st d nd st' Hinv _ H. pose proof (scope_lt32 _ _ Hinv) as Hs32.
+    cbn [view_deser] in H. cbn [sdec]. ifErr H. apply orb_false_elim in Heqb.
+    destruct Heqb as [Hmin Hmx]. apply N.ltb_ge in Hmin, Hmx.
+    bindOK H E. destruct a as [[cfs st1] d1]. bindOK H E2. destruct a as [ns st2].
+    bindOK H E3. injection H as <- <-.
+    destruct (cont_fixed_fwd fs HFf _ _ _ _ _ _ _ _ _ Hinv E)
+      as (C1 & C2 & C3 & C4 & C5 & C6 & C7 & C8 & C9 & C10 & C11).
+    assert (Hsorted : cf_sorted cfs).
+    { unfold cf_sorted. destruct (cf_offs cfs); [exact I|]. exact (proj2 C8). }
+    destruct (cont_var_fwd fs cfs C7 HFf _ _ _ _ _ C3 Hs32 Hsorted C9 E2) as (V1 & V2 & V3).
+    assert (Htot : fp_len fs + cf_tot (dr_scope d) cfs = dr_scope d /\ fp_len fs <= dr_scope d).
+    { unfold cf_tot in *. specialize (C10 eq_refl). destruct (cf_offs cfs) as [|o1 r] eqn:Eo.
+      - destruct (container_fixed_minmax fs Hios Hio (cf_shape_no_offs _ _ C7 Eo)) as [M1 M2]. lia.
+      - pose proof (Forall_inv C9) as Ho1. cbv beta in Ho1. rewrite Hfp in C10. lia. }
+    destruct Htot as [Htot Hfl].
+    destruct Hinv as ((Hnd & HF0) & Hinv'). rewrite C6 in *.
+    rewrite (avail_adv _ _ _ _ HF0 C2) in V1.
+    assert (Ha : dr_scope d <= avail st (d_chain d)) by lia.
+    split; [exact Ha|].
+    split; [apply (adv_eq _ _ (fp_len fs + cf_tot (dr_scope d) cfs)); [lia|]; eapply adv_trans; eassumption|].
+    rewrite (slice_len _ _ _ Ha).
+    destruct (N.ltb_spec (dr_scope d) (ti_min (info (TContainer fs)))); [lia|].
+    destruct (N.ltb_spec (ti_max (info (TContainer fs))) (dr_scope d)); [lia|]. cbn [orb].
+    rewrite (C11 (dr_scope d) Hfl). cbn [obind].
+    replace (dr_scope d - fp_len fs) with (cf_tot (dr_scope d) cfs) by lia.
+    rewrite V3. cbn [obind]. rewrite E3. reflexivity.
+  - intros st d nd Hinv _ Ha H. pose proof (scope_lt32 _ _ Hinv) as Hs32.
+    cbn [sdec] in H. cbn [view_deser]. rewrite (slice_len _ _ _ Ha) in H.
+    ifErr H. apply orb_false_elim in Heqb.
+    destruct Heqb as [Hmin Hmx]. apply N.ltb_ge in Hmin, Hmx.
+    obindS H E. destruct p as [cfs rest]. obindS H E2. apply r2o_some in H.
+    destruct (cont_fixed_bwd fs HF _ _ _ _ _ _ _ _ _ Hinv (N.le_refl _) Ha E) as (st1 & d1 & E1).
+    destruct (cont_fixed_fwd fs HFf _ _ _ _ _ _ _ _ _ Hinv E1)
+      as (C1 & C2 & C3 & C4 & C5 & C6 & C7 & C8 & C9 & C10 & C11).
+    assert (Hsorted : cf_sorted cfs).
+    { unfold cf_sorted. destruct (cf_offs cfs); [exact I|]. exact (proj2 C8). }
+    assert (Htot : fp_len fs + cf_tot (dr_scope d) cfs = dr_scope d /\ fp_len fs <= dr_scope d).
+    { unfold cf_tot in *. specialize (C10 eq_refl). destruct (cf_offs cfs) as [|o1 r] eqn:Eo.
+      - destruct (container_fixed_minmax fs Hios Hio (cf_shape_no_offs _ _ C7 Eo)) as [M1 M2]. lia.
+      - pose proof (Forall_inv C9) as Ho1. cbv beta in Ho1. rewrite Hfp in C10. lia. }
+    destruct Htot as [Htot Hfl].
+    rewrite (C11 (dr_scope d) Hfl) in E. injection E as <-.
+    replace (dr_scope d - fp_len fs) with (cf_tot (dr_scope d) cfs) in E2 by lia.
+    pose proof (nvar_le fs) as Hnv.
+    destruct Hinv as ((Hnd & HF0) & Hinv').
+    destruct (cont_var_bwd fs cfs C7 HF (dr_scope d) st1 d1 l C3 Hs32 Hsorted C9)
+      as (st2 & E3); [lia| |exact E2|].
+    { rewrite C6, (avail_adv _ _ _ _ HF0 C2). lia. }
+    exists st2. rewrite E1. cbn [bind]. rewrite E3. cbn [bind]. rewrite H. reflexivity.
+Qed.
+
+(* ---- all types ---- *)
+Theorem sim_all : forall t,
+  wf_ty t = true -> small_params t = true -> sizes_ok t = true -> sim_ty t.
+Proof.
+  induction t as [w| |k| |k|k|e k IHe|e k IHe|fs IHfs|none opts IHopts] using ty_ind';
+    intros Hwf Hsp Hso.
+  - apply sim_uint.
+  - apply sim_bool.
+  - apply sim_bytes.
+  - apply sim_root.
+  - apply sim_bitvector.
+  - apply sim_bitlist.
+  - apply sim_vector; try assumption. cbn [wf_ty small_params sizes_ok] in Hwf, Hsp, Hso.
+    apply andb_prop in Hwf, Hsp, Hso. apply IHe; tauto.
+  - apply sim_list; try assumption. cbn [wf_ty small_params sizes_ok] in Hwf, Hsp, Hso.
+    apply andb_prop in Hsp, Hso. apply IHe; tauto.
+  - apply sim_container; try assumption. cbn [wf_ty small_params sizes_ok] in Hwf, Hsp, Hso.
+    apply andb_prop in Hwf, Hso. destruct Hwf as [_ Hwf], Hso as [_ Hso].
+    rewrite forallb_forall in Hwf, Hsp, Hso. rewrite Forall_forall in *.
+    intros f Hin. apply IHfs; auto.
+  - apply sim_union. cbn [wf_ty small_params sizes_ok] in Hwf, Hsp, Hso.
+    apply andb_prop in Hwf, Hso. destruct Hwf as [_ Hwf], Hso as [_ Hso].
+    rewrite forallb_forall in Hwf, Hsp, Hso. rewrite Forall_forall in *.
+    intros f Hin. apply IHopts; auto.
+Qed.
+
+(* top level *)
+Theorem view_deserialize_sdec t bs n :
+  wf_ty t = true -> small_params t = true -> sizes_ok t = true ->
+  lenN bs < two32 -> leaf_ok t (lenN bs) ->
+  (view_deserialize zh t bs = OK n <-> sdec zh t bs = Some n).
+Proof.
+  intros Hwf Hsp Hso Hlen Hleaf. destruct (sim_all t Hwf Hsp Hso) as [Hf Hb].
+  unfold view_deserialize, view_deserialize_scoped, new_reader. fold (lenN bs).
+  set (st := mkRS bs [lenN bs]). set (d := mkDR 0 (lenN bs) [O]).
+  assert (Hinv : rinv st d).
+  { unfold st, d. split; [split|split]; cbn [d_chain d_i d_max r_lims length]; try lia.
+    - constructor; [intros []|constructor].
+    - constructor; [lia|constructor]. }
+  assert (Hsc : dr_scope d = lenN bs) by (unfold dr_scope, d; cbn [d_max d_i]; lia).
+  assert (Hav : avail st (d_chain d) = lenN bs).
+  { unfold avail, lim_get, st, d. cbn [d_chain fold_right r_lims r_stream nth]. fold (lenN bs). lia. }
+  assert (Hsl : slice st (dr_scope d) = bs).
+  { unfold slice. rewrite Hsc. unfold st. cbn [r_stream]. unfold nat_of, lenN. rewrite Nat2N.id.
+    apply firstn_all. }
+  split.
+  - intros H. bindOK H E. destruct a as [n' st']. injection H as <-.
+    destruct (Hf st d n' st' Hinv ltac:(rewrite Hsc; exact Hleaf) E) as (_ & _ & Hs).
+    rewrite Hsl in Hs. exact Hs.
+  - intros H. destruct (Hb st d n Hinv ltac:(rewrite Hsc; exact Hleaf)
+                           ltac:(rewrite Hsc, Hav; lia) ltac:(rewrite Hsl; exact H)) as (st' & E).
+    rewrite E. reflexivity.
+Qed.
+
+End Sim.
+
+(* ------------------------------------------------------------------------------------ *)
+(** * 5. Bytes, bits, and the layout of [ser_parts] *)
+
+Lemma byte_of_N_add256 a x : byte_of_N (a + 256 * x) = byte_of_N a.
+Proof.
+  unfold byte_of_N. replace ((a + 256 * x) mod 256) with (a mod 256); [reflexivity|].
+  rewrite N.mul_comm, N.mod_add by discriminate. reflexivity.
+Qed.
+
+Lemma le_bytes_le_val : forall bs, le_bytes (length bs) (le_val bs) = bs.
+Proof.
+  induction bs as [|b bs IH]; [reflexivity|].
+  cbn [length le_val le_bytes]. rewrite byte_of_N_add256, BitfieldsProofs.byte_of_N_of_byte. f_equal.
+  pose proof (BitfieldsProofs.N_of_byte_lt b).
+  replace ((N_of_byte b + 256 * le_val bs) / 256) with (le_val bs) by lia. exact IH.
+Qed.
+
+Lemma le_val_le_bytes_small k n : n < 256 ^ N.of_nat k -> le_val (le_bytes k n) = n.
+Proof. intros H. rewrite le_val_le_bytes. apply N.mod_small, H. Qed.
+
+Lemma le_val_u32 n : n < two32 -> le_val (le_bytes 4 n) = n.
+Proof. intros H. apply le_val_le_bytes_small. exact H. Qed.
+
+Lemma pow256 k : 256 ^ k = 2 ^ (8 * k).
+Proof. change 256 with (2 ^ 8). rewrite <- N.pow_mul_r. reflexivity. Qed.
+
+(* ---- layout of a series of parts ---- *)
+Inductive pfield := PF (bs : list byte) | PV (off : N) (bs : list byte).
+Definition pf_part (p : pfield) : part :=
+  match p with PF b => (true, b) | PV _ b => (false, b) end.
+Definition pf_fixed (p : pfield) : list byte :=
+  match p with PF b => b | PV off _ => le_bytes 4 off end.
+Definition pf_var (p : pfield) : list byte :=
+  match p with PF _ => [] | PV _ b => b end.
+Fixpoint offs_ok (cur : N) (l : list pfield) : Prop :=
+  match l with
+  | [] => True
+  | PF _ :: r => offs_ok cur r
+  | PV off b :: r => off = cur /\ offs_ok (cur + lenN b) r
+  end.
+
+Lemma ser_parts_go_layout : forall l cur, offs_ok cur l ->
+  ser_parts_go (map pf_part l) cur = (flat_map pf_fixed l, flat_map pf_var l).
+Proof.
+  induction l as [|p l IH]; intros cur H; [reflexivity|].
+  destruct p as [b|off b]; cbn [map pf_part ser_parts_go flat_map pf_fixed pf_var offs_ok] in *.
+  - rewrite (IH cur H). reflexivity.
+  - destruct H as [-> H]. rewrite (IH _ H). reflexivity.
+Qed.
+
+Lemma fixed_size_layout l :
+  sumN (map part_fixed_size (map pf_part l)) = lenN (flat_map pf_fixed l).
+Proof.
+  induction l as [|p l IH]; [reflexivity|].
+  cbn [map flat_map]. rewrite sumN_cons, lenN_app, IH. f_equal.
+  destruct p as [b|off b]; cbn [pf_part pf_fixed part_fixed_size fst snd]; [reflexivity|].
+  unfold lenN. rewrite le_bytes_length. reflexivity.
+Qed.
+
+Theorem ser_parts_layout l : offs_ok (lenN (flat_map pf_fixed l)) l ->
+  ser_parts (map pf_part l) = flat_map pf_fixed l ++ flat_map pf_var l.
+Proof.
+  intros H. unfold ser_parts. rewrite fixed_size_layout, (ser_parts_go_layout _ _ H). reflexivity.
+Qed.
+
+(* every list of parts has a layout *)
+Fixpoint layout (cur : N) (ps : list part) : list pfield :=
+  match ps with
+  | [] => []
+  | (true, b) :: r => PF b :: layout cur r
+  | (false, b) :: r => PV cur b :: layout (cur + lenN b) r
+  end.
+
+Lemma layout_parts : forall ps cur, map pf_part (layout cur ps) = ps.
+Proof.
+  induction ps as [|[[|] b] ps IH]; intros cur; cbn [layout map pf_part]; [reflexivity| |];
+    rewrite IH; reflexivity.
+Qed.
+
+Lemma layout_ok : forall ps cur, offs_ok cur (layout cur ps).
+Proof.
+  induction ps as [|[[|] b] ps IH]; intros cur; cbn [layout offs_ok]; [exact I|apply IH|].
+  split; [reflexivity|apply IH].
+Qed.
+
+Lemma ser_parts_all_fixed {A} (g : A -> list byte) vs :
+  ser_parts (map (fun x => (true, g x)) vs) = concat (map g vs).
+Proof.
+  unfold ser_parts. generalize (sumN (map part_fixed_size (map (fun x => (true, g x)) vs))).
+  intros off. assert (E : ser_parts_go (map (fun x => (true, g x)) vs) off = (concat (map g vs), [])).
+  { induction vs as [|v vs IH]; [reflexivity|]. cbn [map ser_parts_go concat]. rewrite IH. reflexivity. }
+  rewrite E. apply app_nil_r.
+Qed.
+
+(* ------------------------------------------------------------------------------------ *)
+(** * 6. Canonicity and completeness of the slice decoder *)
+
+Section Canon.
+Variable zh : nat -> chunk.
+Hypothesis zh0 : zh 0 = zero_chunk.
+
+Notation sdc := (sdec zh).
+
+Definition canon_ty (t : ty) : Prop :=
+  forall bs n, sdc t bs = Some n ->
+  exists v, has_type v t = true /\ bs = spec_ser t v /\ repr zh t n v.
+
+Definition compl_ty (t : ty) : Prop :=
+  forall v, has_type v t = true -> lenN (spec_ser t v) < two32 ->
+  exists n, sdc t (spec_ser t v) = Some n /\ repr zh t n v.
+
+(* ---- trees from decoded parts (shared by both directions) ---- *)
+Lemma fill_contents_cdepth ns t : fill_contents zh ns t = fill_to_contents zh ns (cdepth t).
+Proof. reflexivity. Qed.
+
+Lemma len_leaf_0 : len_leaf 0 = Leaf (zh 0).
+Proof. rewrite zh0. reflexivity. Qed.
+
+Lemma build_bitvector k bits : k <= 2 ^ 56 -> lenN bits = k ->
+  exists nd, fill_contents zh (map Leaf (chunkify (bits_to_bytes bits))) (TBitvector k) = OK nd /\
+             repr zh (TBitvector k) nd (VBits bits).
+Proof.
+  intros Hk Hl. rewrite fill_contents_cdepth. cbn [repr]. fold (bit_chunks bits).
+  rewrite cdepth_bitvector by exact Hk. apply fill_chunks.
+  - pose proof (depth_for_bound ((k + 255) / 256) 48 ltac:(lia)). lia.
+  - rewrite bit_chunks_lenN, Hl. apply depth_for_ge.
+Qed.
+
+Lemma build_bitlist k bits : k <= 2 ^ 56 -> lenN bits <= k ->
+  exists c, fill_contents zh (map Leaf (chunkify (bits_to_bytes bits))) (TBitlist k) = OK c /\
+            repr zh (TBitlist k) (Pair c (len_leaf (lenN bits))) (VBits bits).
+Proof.
+  intros Hk Hl. rewrite fill_contents_cdepth. fold (bit_chunks bits).
+  destruct (fill_chunks zh (cdepth (TBitlist k)) (bit_chunks bits)) as (c & Ec & Sc).
+  - rewrite cdepth_bitlist by exact Hk.
+    pose proof (depth_for_bound ((k + 255) / 256) 48 ltac:(lia)). lia.
+  - rewrite cdepth_bitlist by exact Hk. rewrite bit_chunks_lenN.
+    pose proof (depth_for_ge ((k + 255) / 256)). lia.
+  - exists c. split; [exact Ec|]. cbn [repr]. exists c. split; [reflexivity|exact Sc].
+Qed.
+
+Lemma build_vector_uint w k vs : uint_width_ok w = true -> k <= 2 ^ 56 -> lenN vs = k ->
+  forallb (fun x => has_type x (TUint w)) vs = true ->
+  exists nd, fill_contents zh (map Leaf (chunkify (flat_map (spec_ser (TUint w)) vs)))
+                           (TVector (TUint w) k) = OK nd /\
+             repr zh (TVector (TUint w) k) nd (VSeq vs).
+Proof.
+  intros Hw Hk Hl Hty. rewrite fill_contents_cdepth.
+  destruct (fill_chunks zh (cdepth (TVector (TUint w) k))
+                        (chunkify (flat_map (spec_ser (TUint w)) vs))) as (c & Ec & Sc).
+  - rewrite cdepth_vector_uint by assumption.
+    pose proof (chunk_count_uint_bound w k Hw Hk).
+    pose proof (depth_for_bound (chunk_count_basic (TUint w) k) 56 ltac:(lia)). lia.
+  - rewrite cdepth_vector_uint by assumption.
+    rewrite chunkify_lenN, lenN_flat_map_uint, Hl by exact Hty. apply depth_for_ge.
+  - exists c. split; [exact Ec|]. rewrite repr_vector. exact Sc.
+Qed.
+
+Lemma build_list_uint w k vs : uint_width_ok w = true -> k <= 2 ^ 56 -> lenN vs <= k ->
+  forallb (fun x => has_type x (TUint w)) vs = true ->
+  exists c, fill_contents zh (map Leaf (chunkify (flat_map (spec_ser (TUint w)) vs)))
+                          (TList (TUint w) k) = OK c /\
+            repr zh (TList (TUint w) k) (Pair c (len_leaf (lenN vs))) (VSeq vs).
+Proof.
+  intros Hw Hk Hl Hty. rewrite fill_contents_cdepth.
+  destruct (fill_chunks zh (cdepth (TList (TUint w) k))
+                        (chunkify (flat_map (spec_ser (TUint w)) vs))) as (c & Ec & Sc).
+  - rewrite cdepth_list_uint by assumption.
+    pose proof (chunk_count_uint_bound w k Hw Hk).
+    pose proof (depth_for_bound (chunk_count_basic (TUint w) k) 56 ltac:(lia)). lia.
+  - rewrite cdepth_list_uint by assumption.
+    rewrite chunkify_lenN, lenN_flat_map_uint by exact Hty.
+    pose proof (depth_for_ge (chunk_count_basic (TUint w) k)) as Hge.
+    unfold chunk_count_basic in *. cbn [spec_fixed_len] in *.
+    assert (lenN vs * w <= k * w) by (apply N.mul_le_mono_r; exact Hl). lia.
+  - exists c. split; [exact Ec|]. rewrite repr_list. exists c. split; [reflexivity|exact Sc].
+Qed.
+
+Definition reprs (e : ty) (ns : list node) (vs : list val) : Prop :=
+  Forall2 (fun n v => repr zh e n v) ns vs.
+
+Lemma reprs_preds e ns vs : reprs e ns vs ->
+  Forall2 (fun n (p : node -> Prop) => p n) ns (map (fun x m => repr zh e m x) vs).
+Proof. induction 1; cbn [map]; constructor; assumption. Qed.
+
+Lemma reprs_len e ns vs : reprs e ns vs -> lenN ns = lenN vs.
+Proof. intros H. unfold lenN. f_equal. eapply Forall2_length'. exact H. Qed.
+
+Lemma build_vector_nb e k ns vs : is_basic_elem e = false -> k <= 2 ^ 56 ->
+  reprs e ns vs -> lenN vs = k ->
+  exists nd, fill_contents zh ns (TVector e k) = OK nd /\ repr zh (TVector e k) nd (VSeq vs).
+Proof.
+  intros Hb Hk Hr Hl. rewrite fill_contents_cdepth.
+  destruct (fun a b => fill_series zh (cdepth (TVector e k)) ns _ a b (reprs_preds _ _ _ Hr))
+    as (c & Ec & Sc).
+  - rewrite cdepth_vector_nb by assumption. pose proof (depth_for_bound k 56 Hk). lia.
+  - rewrite cdepth_vector_nb by assumption. rewrite (reprs_len _ _ _ Hr), Hl. apply depth_for_ge.
+  - exists c. split; [exact Ec|]. rewrite repr_vector, Hb. exact Sc.
+Qed.
+
+Lemma build_list_nb e k ns vs : is_basic_elem e = false -> k <= 2 ^ 56 ->
+  reprs e ns vs -> lenN vs <= k ->
+  exists c, fill_contents zh ns (TList e k) = OK c /\
+            repr zh (TList e k) (Pair c (len_leaf (lenN vs))) (VSeq vs).
+Proof.
+  intros Hb Hk Hr Hl. rewrite fill_contents_cdepth.
+  destruct (fun a b => fill_series zh (cdepth (TList e k)) ns _ a b (reprs_preds _ _ _ Hr))
+    as (c & Ec & Sc).
+  - rewrite cdepth_list_nb by assumption. pose proof (depth_for_bound k 56 Hk). lia.
+  - rewrite cdepth_list_nb by assumption. rewrite (reprs_len _ _ _ Hr).
+    pose proof (depth_for_ge k). lia.
+  - exists c. split; [exact Ec|]. rewrite repr_list, Hb. exists c. split; [reflexivity|exact Sc].
+Qed.
+
+Lemma build_container fs ns vs : lenN fs <= 2 ^ 63 ->
+  Forall2 (fun n (p : node -> Prop) => p n) ns (rfields_repr zh fs vs) -> lenN ns = lenN fs ->
+  exists nd, fill_contents zh ns (TContainer fs) = OK nd /\ repr zh (TContainer fs) nd (VCont vs).
+Proof.
+  intros Hc Hr Hl. rewrite fill_contents_cdepth.
+  assert (Hd : cdepth (TContainer fs) = depth_for (lenN fs)).
+  { change (cdepth (TContainer fs)) with (nat_of (cover_depth (lenN fs))).
+    apply cover_depth_for. assert (2 ^ 63 < 2 ^ 64) by (apply N.pow_lt_mono_r; lia). lia. }
+  destruct (fun a b => fill_series zh (cdepth (TContainer fs)) ns _ a b Hr) as (c & Ec & Sc).
+  - rewrite Hd. pose proof (depth_for_bound (lenN fs) 63 Hc). lia.
+  - rewrite Hd, Hl. apply depth_for_ge.
+  - exists c. split; [exact Ec|]. rewrite repr_cont. exact Sc.
+Qed.
+
+Lemma repr_empty_list e k :
+  repr zh (TList e k) (Pair (zleaf zh (contents_depth (TList e k))) (zleaf zh 0)) (VSeq []).
+Proof.
+  rewrite repr_list. eexists. split.
+  - unfold zleaf at 2. change (nat_of 0) with 0%nat. rewrite <- len_leaf_0. reflexivity.
+  - assert (S : series zh (cdepth (TList e k)) [] (zleaf zh (contents_depth (TList e k))))
+      by (apply series_nil, ztree_leaf).
+    destruct (is_basic_elem e); exact S.
+Qed.
+
+(* ---- leaf types ---- *)
+Lemma canon_uint w : canon_ty (TUint w).
+Proof.
+  intros bs n H. cbn [sdec] in H. destruct (uint_width_ok w) eqn:Hw; [|discriminate H].
+  destruct (N.eqb_spec (lenN bs) w) as [Hl|]; [|discriminate H]. injection H as <-.
+  exists (VUint (le_val bs)). cbn [has_type spec_ser repr].
+  assert (E : le_bytes (nat_of w) (le_val bs) = bs).
+  { rewrite <- Hl. unfold nat_of, lenN. rewrite Nat2N.id. apply le_bytes_le_val. }
+  rewrite E. repeat split.
+  apply N.ltb_lt. rewrite <- Hl, <- pow256. apply le_val_bound.
+Qed.
+
+Lemma compl_uint w : wf_ty (TUint w) = true -> compl_ty (TUint w).
+Proof.
+  intros Hwf v Hty _. destruct v; try discriminate Hty. cbn [wf_ty] in Hwf.
+  cbn [spec_ser sdec]. rewrite Hwf, lenN_le_bytes, N.eqb_refl. eexists. split; reflexivity.
+Qed.
+
+Lemma bool_bytes b : N_of_byte b <= 1 ->
+  [b] = [byte_of_N (if N_of_byte b =? 1 then 1 else 0)].
+Proof.
+  intros H. f_equal. destruct (N.eqb_spec (N_of_byte b) 1) as [E|NE].
+  - rewrite <- E. symmetry. apply BitfieldsProofs.byte_of_N_of_byte.
+  - assert (E : N_of_byte b = 0) by lia. rewrite <- E. symmetry.
+    apply BitfieldsProofs.byte_of_N_of_byte.
+Qed.
+
+Lemma canon_bool : canon_ty TBool.
+Proof.
+  intros bs n H. cbn [sdec] in H.
+  destruct (N.eqb_spec (lenN bs) 1) as [Hl|]; [|discriminate H]. cbn [negb] in H.
+  destruct bs as [|b [|b' bs]]; try (unfold lenN in Hl; cbn [length] in Hl; lia).
+  cbn [le_val] in H. rewrite N.mul_0_r, N.add_0_r in H.
+  destruct (N.ltb_spec 1 (N_of_byte b)) as [|Hb]; [discriminate H|]. injection H as <-.
+  exists (VBool (N_of_byte b =? 1)). cbn [has_type spec_ser repr].
+  split; [reflexivity|]. split.
+  - rewrite (bool_bytes b Hb). destruct (N_of_byte b =? 1); reflexivity.
+  - rewrite zh0. reflexivity.
+Qed.
+
+Lemma compl_bool : compl_ty TBool.
+Proof.
+  intros v Hty _. destruct v; try discriminate Hty. cbn [spec_ser sdec].
+  change (lenN [byte_of_N (if b then 1 else 0)]) with 1. cbn [N.eqb Pos.eqb negb le_val].
+  rewrite BitfieldsProofs.N_of_byte_of_N by (destruct b; lia).
+  rewrite N.mul_0_r, N.add_0_r. destruct b; cbn [N.ltb N.compare Pos.compare Pos.compare_cont N.eqb Pos.eqb].
+  - eexists. split; reflexivity.
+  - eexists. split; [reflexivity|]. cbn [repr]. rewrite zh0. reflexivity.
+Qed.
+
+Lemma canon_bytes k : canon_ty (TBytes k).
+Proof.
+  intros bs n H. cbn [sdec] in H.
+  destruct (N.eqb_spec (lenN bs) k) as [Hl|]; [|discriminate H]. injection H as <-.
+  exists (VBytes bs). cbn [has_type spec_ser repr]. repeat split. apply N.eqb_eq. exact Hl.
+Qed.
+
+Lemma compl_bytes k : compl_ty (TBytes k).
+Proof.
+  intros v Hty _. destruct v; try discriminate Hty. cbn [has_type] in Hty.
+  cbn [spec_ser sdec]. unfold lenN. rewrite Hty. eexists. split; reflexivity.
+Qed.
+
+Lemma canon_root : canon_ty TRoot.
+Proof.
+  intros bs n H. cbn [sdec] in H.
+  destruct (N.eqb_spec (lenN bs) 32) as [Hl|]; [|discriminate H]. injection H as <-.
+  exists (VBytes bs). cbn [has_type spec_ser repr]. repeat split. apply N.eqb_eq. exact Hl.
+Qed.
+
+Lemma compl_root : compl_ty TRoot.
+Proof.
+  intros v Hty _. destruct v; try discriminate Hty. cbn [has_type] in Hty.
+  cbn [spec_ser sdec]. unfold lenN. rewrite Hty. eexists. split; reflexivity.
+Qed.
+
+(* ---- bitvectors ---- *)
+Lemma k56_bound : 2 ^ 56 + 8 <= 2 ^ 64 - 7.
+Proof. vm_compute. discriminate. Qed.
+
+
+Lemma land_low x j : N.land x (2 ^ j - 1) = x mod 2 ^ j.
+Proof. rewrite N.sub_1_r, <- N.ones_equiv. apply N.land_ones. Qed.
+
+Lemma bv_pad_check bs k : 1 <= lenN bs ->
+  (negb (lenN bs =? 0) && negb (N.land k 7 =? 0)
+   && negb (N.land (N_of_byte (last bs b0)) (2 ^ (N.land k 7) - 1) =? N_of_byte (last bs b0)) = false
+   <-> (k mod 8 <> 0 -> N_of_byte (last bs b0) / 2 ^ (k mod 8) = 0)).
+Proof.
+  intros Hl. rewrite BP.land7, land_low. set (x := N_of_byte (last bs b0)).
+  assert (Hp : 0 < 2 ^ (k mod 8)) by apply pow2_pos.
+  destruct (N.eqb_spec (lenN bs) 0) as [|_]; [lia|]. cbn [negb andb].
+  destruct (N.eqb_spec (k mod 8) 0) as [Hz|Hnz]; cbn [negb andb].
+  - split; [intros _ C; contradiction|reflexivity].
+  - destruct (N.eqb_spec (x mod 2 ^ (k mod 8)) x) as [E|NE]; cbn [negb].
+    + split; [intros _ _|reflexivity]. apply N.div_small. rewrite <- E. apply N.mod_lt. lia.
+    + split; [discriminate|]. intros H. exfalso. apply NE. apply N.mod_small.
+      specialize (H Hnz). apply N.div_small_iff in H; lia.
+Qed.
+
+Lemma canon_bitvector k : wf_ty (TBitvector k) = true -> small_params (TBitvector k) = true ->
+  canon_ty (TBitvector k).
+Proof.
+  intros Hwf Hsp bs n H. cbn [wf_ty small_params] in Hwf, Hsp. apply N.leb_le in Hwf, Hsp.
+  pose proof small_plus8 as H56.
+  cbn [sdec info ti_size] in H. rewrite wrap64_small in H by lia.
+  destruct (N.eqb_spec ((k + 7) / 8) (lenN bs)) as [Hl|]; [|discriminate H]. cbn [negb] in H.
+  match type of H with (if ?c then _ else _) = _ => destruct c eqn:Hpad; [discriminate H|] end.
+  apply r2o_some in H.
+  pose proof (proj1 (bv_pad_check bs k ltac:(lia)) Hpad) as Hpad'. clear Hpad. rename Hpad' into Hpad.
+  assert (Hchk : Bitfields.bitvector_check bs k = OK tt).
+  { apply BP.bitvector_check_spec.
+    - pose proof k56_bound. lia.
+    - split; [symmetry; exact Hl|exact Hpad]. }
+  apply BP.bitvector_check_sound in Hchk;
+    [|pose proof k56_bound; lia].
+  destruct Hchk as (bits & Hbl & ->). fold (lenN bits) in Hbl.
+  destruct (build_bitvector k bits Hsp Hbl) as (nd & E & R).
+  rewrite E in H. injection H as <-.
+  exists (VBits bits). cbn [has_type spec_ser]. split; [apply N.eqb_eq; exact Hbl|].
+  split; [reflexivity|exact R].
+Qed.
+
+Lemma compl_bitvector k : wf_ty (TBitvector k) = true -> small_params (TBitvector k) = true ->
+  compl_ty (TBitvector k).
+Proof.
+  intros Hwf Hsp v Hty _. cbn [wf_ty small_params] in Hwf, Hsp. apply N.leb_le in Hwf, Hsp.
+  pose proof small_plus8 as H56.
+  destruct v; try discriminate Hty. cbn [has_type] in Hty. apply N.eqb_eq in Hty.
+  fold (lenN bs) in Hty. cbn [spec_ser].
+  destruct (build_bitvector k bs Hsp Hty) as (nd & E & R). exists nd. split; [|exact R].
+  cbn [sdec info ti_size]. rewrite wrap64_small by lia.
+  rewrite SizeProofs.bits_to_bytes_lenN, Hty, N.eqb_refl. cbn [negb].
+  assert (Hchk : Bitfields.bitvector_check (bits_to_bytes bs) (lenN bs) = OK tt).
+  { apply BP.bitvector_check_complete. change (BP.lenN bs) with (lenN bs).
+    pose proof k56_bound. lia. }
+  apply BP.bitvector_check_spec in Hchk; [|pose proof k56_bound; lia].
+  destruct Hchk as [Hl Hpad]. rewrite Hty in Hpad.
+  pose proof (proj2 (bv_pad_check (bits_to_bytes bs) k
+                  ltac:(rewrite SizeProofs.bits_to_bytes_lenN; lia)) Hpad) as Hpad'.
+  clear Hpad. rename Hpad' into Hpad.
+  rewrite SizeProofs.bits_to_bytes_lenN, Hty in Hpad. rewrite Hpad, E. reflexivity.
+Qed.
+
+(* ---- bitlists ---- *)
+Lemma clear_byte_sweep :
+  forallb (fun l =>
+     let x := N_of_byte l in let dbi := byte_bit_index_N x in
+     (x =? 0) || (dbi =? 0) ||
+     match bits_to_bytes (firstn (N.to_nat dbi) (BP.byte_bits l)) with
+     | [y] => Byte.eqb y (byte_of_N (N.lxor x (2 ^ dbi)))
+     | _ => false
+     end) BP.all_bytes = true.
+Proof. vm_compute. reflexivity. Qed.
+
+Lemma clear_byte l : N_of_byte l <> 0 -> byte_bit_index_N (N_of_byte l) <> 0 ->
+  bits_to_bytes (firstn (N.to_nat (byte_bit_index_N (N_of_byte l))) (BP.byte_bits l)) =
+  [byte_of_N (N.lxor (N_of_byte l) (2 ^ byte_bit_index_N (N_of_byte l)))].
+Proof.
+  intros H1 H2. pose proof (BP.byte_sweep _ clear_byte_sweep l) as S. cbv beta zeta in S.
+  apply orb_true_iff in S. destruct S as [S|S].
+  - apply orb_true_iff in S. destruct S as [S|S]; apply N.eqb_eq in S; contradiction.
+  - destruct (bits_to_bytes _) as [|x [|y t]]; try discriminate S.
+    apply Byte.byte_dec_bl in S. subst x. reflexivity.
+Qed.
+
+Lemma bitlist_decode init l : N_of_byte l <> 0 ->
+  let dbi := byte_bit_index_N (N_of_byte l) in
+  exists bits, init ++ [l] = ser_bitlist bits /\ lenN bits = 8 * lenN init + dbi /\
+    bits_to_bytes bits =
+    if dbi =? 0 then init else init ++ [byte_of_N (N.lxor (N_of_byte l) (2 ^ dbi))].
+Proof.
+  intros Hl dbi.
+  assert (Hdbi : dbi < 8) by apply (BP.byte_bit_index_lt8 l).
+  exists (BP.bytes_to_bits init ++ firstn (N.to_nat dbi) (BP.byte_bits l)). split; [|split].
+  - unfold ser_bitlist. rewrite <- app_assoc, BP.btb_bytes_to_bits_app.
+    f_equal. symmetry. apply (BP.delim_byte l Hl).
+  - rewrite lenN_app. unfold lenN.
+    rewrite BP.bytes_to_bits_length, firstn_length, BP.byte_bits_length. lia.
+  - rewrite BP.btb_bytes_to_bits_app. destruct (N.eqb_spec dbi 0) as [E|NE].
+    + rewrite E. change (N.to_nat 0) with 0%nat. cbn [firstn]. rewrite BP.btb_nil. apply app_nil_r.
+    + f_equal. apply clear_byte; assumption.
+Qed.
+
+Lemma repr_empty_bitlist k :
+  repr zh (TBitlist k) (Pair (zleaf zh (contents_depth (TBitlist k))) (zleaf zh 0)) (VBits []).
+Proof.
+  cbn [repr]. eexists. split.
+  - unfold zleaf at 2. change (nat_of 0) with 0%nat. rewrite <- len_leaf_0. reflexivity.
+  - apply series_nil, ztree_leaf.
+Qed.
+
+Lemma shiftl3_small a : 8 * a < two64 -> wrap64 (N.shiftl a 3) = 8 * a.
+Proof. intros H. rewrite BP.shiftl3. apply wrap64_small, H. Qed.
+
+Lemma canon_bitlist k : small_params (TBitlist k) = true -> canon_ty (TBitlist k).
+Proof.
+  intros Hsp bs n H. cbn [small_params] in Hsp. apply N.leb_le in Hsp.
+  pose proof small_plus8 as H56.
+  cbn [sdec info ti_max] in H. rewrite wrap64_small in H by lia.
+  destruct (N.eqb_spec (lenN bs) 0) as [|Hne]; [discriminate H|].
+  destruct (N.ltb_spec ((k + 8) / 8) (lenN bs)) as [|Hmax]; [discriminate H|].
+  destruct (N.eqb_spec (N_of_byte (last bs b0)) 0) as [|Hl0]; [discriminate H|].
+  assert (Hnn : bs <> []) by (intros ->; apply Hne; reflexivity).
+  destruct (exists_last Hnn) as (init & l & ->).
+  rewrite last_last in *. rewrite removelast_last in H.
+  rewrite lenN_app in *. change (lenN [l]) with 1 in *.
+  replace (lenN init + 1 - 1) with (lenN init) in H by lia.
+  rewrite shiftl3_small in H by lia.
+  destruct (bitlist_decode init l Hl0) as (bits & Hser & Hlen & Hbtb).
+  set (dbi := byte_bit_index_N (N_of_byte l)) in *.
+  exists (VBits bits). cbn [has_type spec_ser].
+  destruct ((lenN init + 1 =? 1) && (N_of_byte l =? 1)) eqn:Hspecial.
+  - apply andb_prop in Hspecial. destruct Hspecial as [S1 S2].
+    apply N.eqb_eq in S1, S2. cbn [default_node r2o] in H. injection H as <-.
+    assert (Hd0 : dbi = 0) by (unfold dbi; rewrite S2; reflexivity).
+    assert (Hb0 : bits = []).
+    { destruct bits; [reflexivity|]. rewrite lenN_cons in Hlen. lia. }
+    subst bits. split; [apply N.leb_le; change (N.of_nat (length (@nil bool))) with 0; lia|].
+    split; [exact Hser|apply repr_empty_bitlist].
+  - destruct (N.ltb_spec k (8 * lenN init + dbi)) as [|Hle]; [discriminate H|].
+    rewrite <- Hbtb in H. obindS H E. apply r2o_some in E. injection H as <-.
+    rewrite <- Hlen in *.
+    destruct (build_bitlist k bits Hsp Hle) as (c & Ec & Rc).
+    rewrite Ec in E. injection E as <-.
+    split; [apply N.leb_le; exact Hle|]. split; [exact Hser|exact Rc].
+Qed.
+
+Lemma compl_bitlist k : small_params (TBitlist k) = true -> compl_ty (TBitlist k).
+Proof.
+  intros Hsp v Hty _. cbn [small_params] in Hsp. apply N.leb_le in Hsp.
+  pose proof small_plus8 as H56.
+  destruct v; try discriminate Hty. cbn [has_type] in Hty. apply N.leb_le in Hty.
+  fold (lenN bs) in Hty. rename bs into bits. cbn [spec_ser].
+  destruct (BP.pack_bitlist_struct bits) as (A & r & q & E & HA & Hr & Hq & Hpack).
+  change (BP.pack_bitlist bits) with (ser_bitlist bits) in Hpack. change (BP.lenN r) with (lenN r) in Hpack.
+  assert (HlenA : lenN A = 8 * N.of_nat q) by (unfold lenN; lia).
+  assert (Hlbits : lenN bits = 8 * N.of_nat q + lenN r) by (rewrite E, lenN_app; lia).
+  assert (Hr8 : lenN r < 8) by (unfold lenN; lia).
+  pose proof (BP.delim_lt256 r Hr) as Hd256. change (BP.lenN r) with (lenN r) in Hd256.
+  pose proof (BP.delim_nonzero r) as Hdnz. change (BP.lenN r) with (lenN r) in Hdnz.
+  pose proof (BP.delim_index r Hr) as Hdi.
+  change (BP.lenN r) with (lenN r) in Hdi.
+  change (Bitfields.byte_bit_index_N (bits_val r + 2 ^ lenN r))
+    with (byte_bit_index_N (bits_val r + 2 ^ lenN r)) in Hdi.
+  pose proof (BP.delim_clear r) as Hdc. change (BP.lenN r) with (lenN r) in Hdc.
+  destruct (build_bitlist k bits Hsp Hty) as (c & Ec & Rc).
+  cbn [sdec info ti_max]. rewrite wrap64_small by lia. rewrite Hpack.
+  rewrite last_last, removelast_last, lenN_app.
+  change (lenN [byte_of_N (bits_val r + 2 ^ lenN r)]) with 1.
+  assert (HlA : lenN (bits_to_bytes A) = N.of_nat q) by (unfold lenN; rewrite Hq; reflexivity).
+  rewrite HlA, BP.N_of_byte_of_N by exact Hd256.
+  destruct (N.eqb_spec (N.of_nat q + 1) 0) as [|_]; [lia|].
+  destruct (N.ltb_spec ((k + 8) / 8) (N.of_nat q + 1)) as [|_]; [lia|].
+  destruct (N.eqb_spec (bits_val r + 2 ^ lenN r) 0) as [|_]; [contradiction|].
+  replace (N.of_nat q + 1 - 1) with (N.of_nat q) by lia.
+  rewrite shiftl3_small by lia. rewrite Hdi, Hdc.
+  destruct ((N.of_nat q + 1 =? 1) && (bits_val r + 2 ^ lenN r =? 1)) eqn:Hspecial.
+  - apply andb_prop in Hspecial. destruct Hspecial as [S1 S2]. apply N.eqb_eq in S1, S2.
+    assert (Hr0 : r = []).
+    { destruct r as [|b r']; [reflexivity|]. rewrite lenN_cons in S2.
+      assert (2 <= 2 ^ (1 + lenN r')) by (rewrite N.pow_add_r; pose proof (pow2_pos (lenN r')); lia).
+      lia. }
+    assert (HA0 : A = []) by (destruct A; [reflexivity|cbn [length] in HA; lia]).
+    subst r A. cbn [app] in E. subst bits.
+    cbn [default_node r2o]. eexists. split; [reflexivity|apply repr_empty_bitlist].
+  - destruct (N.ltb_spec k (8 * N.of_nat q + lenN r)) as [|_]; [lia|].
+    assert (Hcont : (if lenN r =? 0 then bits_to_bytes A
+                     else bits_to_bytes A ++ [byte_of_N (bits_val r)]) = bits_to_bytes bits).
+    { rewrite E. destruct (N.eqb_spec (lenN r) 0) as [Hz|Hnz].
+      - destruct r; [|rewrite lenN_cons in Hz; lia]. rewrite app_nil_r. reflexivity.
+      - rewrite (BP.btb_app8 q) by exact HA. f_equal. symmetry. apply BP.btb_small.
+        unfold lenN in *. lia. }
+    rewrite Hcont, Ec. cbn [r2o obind]. rewrite <- Hlbits.
+    eexists. split; [reflexivity|exact Rc].
+Qed.
+
+(* ---- series: shapes ---- *)
+Definition decs (sd : sdecoder) (pieces : list (list byte)) (ns : list node) : Prop :=
+  Forall2 (fun p n => sd p = Some n) pieces ns.
+
+Lemma firstn_skipn_N {A} (l : list A) k : firstn (nat_of k) l ++ skipn (nat_of k) l = l.
+Proof. apply firstn_skipn. Qed.
+
+Lemma lenN_concat_const (pieces : list (list byte)) size :
+  Forall (fun p => lenN p = size) pieces -> lenN (concat pieces) = lenN pieces * size.
+Proof.
+  induction 1 as [|p ps Hp _ IH]; [reflexivity|].
+  cbn [concat]. rewrite lenN_app, lenN_cons, IH, Hp. lia.
+Qed.
+
+Lemma s_fixed_series_shape sd size : forall count bs ns,
+  s_fixed_series sd count size bs = Some ns ->
+  exists pieces rest, bs = concat pieces ++ rest /\ decs sd pieces ns /\
+    Forall (fun p => lenN p = size) pieces /\ length pieces = count.
+Proof.
+  induction count as [|k IH]; intros bs ns H.
+  - cbn [s_fixed_series] in H. injection H as <-. exists [], bs.
+    repeat split; constructor.
+  - cbn [s_fixed_series] in H. destruct (N.ltb_spec (lenN bs) size) as [|Hl]; [discriminate H|].
+    obindS H E1. obindS H E2. injection H as <-.
+    destruct (IH _ _ E2) as (pieces & rest & Hbs & Hd & Hsz & Hlen).
+    exists (firstn (nat_of size) bs :: pieces), rest. repeat split.
+    + cbn [concat]. rewrite <- app_assoc, <- Hbs. symmetry. apply firstn_skipn_N.
+    + constructor; assumption.
+    + constructor; [|exact Hsz]. rewrite lenN_firstn'. lia.
+    + cbn [length]. lia.
+Qed.
+
+Lemma s_fixed_series_complete sd size : forall pieces ns rest,
+  decs sd pieces ns -> Forall (fun p => lenN p = size) pieces ->
+  s_fixed_series sd (length pieces) size (concat pieces ++ rest) = Some ns.
+Proof.
+  induction 1 as [|p n ps ns Hp _ IH]; intros Hsz; [reflexivity|].
+  pose proof (Forall_inv Hsz) as Hp1. pose proof (Forall_inv_tail Hsz) as Hsz'. cbv beta in Hp1.
+  cbn [length concat s_fixed_series]. rewrite <- app_assoc, lenN_app.
+  destruct (N.ltb_spec (lenN p + lenN (concat ps ++ rest)) size); [lia|].
+  assert (Hn : nat_of size = length p) by (unfold nat_of, lenN in *; lia).
+  rewrite Hn, firstn_app, Nat.sub_diag, firstn_all, firstn_O, app_nil_r, Hp. cbn [obind].
+  rewrite skipn_app, Nat.sub_diag, skipn_all, skipn_O. cbn [app].
+  rewrite (IH Hsz'). reflexivity.
+Qed.
+
+(* elements decoded one by one *)
+Lemma elems_canon e pieces ns : canon_ty e -> decs (sdc e) pieces ns ->
+  exists vs, forallb (fun x => has_type x e) vs = true /\ pieces = map (spec_ser e) vs /\
+             reprs e ns vs.
+Proof.
+  intros Hc. induction 1 as [|p n ps ns Hp _ IH].
+  - exists []. repeat split. constructor.
+  - destruct IH as (vs & Hty & Hps & Hr). destruct (Hc _ _ Hp) as (v & Hv & Hpv & Hrv).
+    exists (v :: vs). cbn [forallb map]. rewrite Hv, Hty, <- Hpv, <- Hps.
+    repeat split. constructor; assumption.
+Qed.
+
+Lemma elems_compl e vs : compl_ty e -> forallb (fun x => has_type x e) vs = true ->
+  Forall (fun x => lenN (spec_ser e x) < two32) vs ->
+  exists ns, decs (sdc e) (map (spec_ser e) vs) ns /\ reprs e ns vs.
+Proof.
+  intros Hc. induction vs as [|v vs IH]; intros Hty Hlt.
+  - exists []. split; constructor.
+  - cbn [forallb] in Hty. apply andb_prop in Hty. destruct Hty as [Hv Hty].
+    destruct (IH Hty (Forall_inv_tail Hlt)) as (ns & Hd & Hr).
+    destruct (Hc v Hv (Forall_inv Hlt)) as (n & Hn & Rn).
+    exists (n :: ns). split; constructor; assumption.
+Qed.
+
+(* each element's encoding is a part of the whole *)
+Lemma series_elem_len (fx : bool) (g : val -> list byte) vs :
+  Forall (fun x => lenN (g x) <= lenN (ser_parts (map (fun x => (fx, g x)) vs))) vs.
+Proof.
+  apply Forall_forall. intros x Hin. rewrite ser_series_lenN.
+  pose proof (sumN_map_In_le (fun x => if fx then lenN (g x) else 4 + lenN (g x)) vs x Hin) as H.
+  cbv beta in H. destruct fx; lia.
+Qed.
+
+(* ---- uintN series ---- *)
+Lemma uint_series_decode w : 1 <= w -> forall len bs, lenN bs = N.of_nat len * w ->
+  exists vs, length vs = len /\ forallb (fun x => has_type x (TUint w)) vs = true /\
+             bs = flat_map (spec_ser (TUint w)) vs.
+Proof.
+  intros Hw. induction len as [|len IH]; intros bs Hl.
+  - exists []. repeat split. destruct bs; [reflexivity|]. rewrite lenN_cons in Hl. lia.
+  - destruct (IH (skipn (nat_of w) bs)) as (vs & Hlen & Hty & Hbs).
+    { rewrite lenN_skipn'. lia. }
+    set (p := firstn (nat_of w) bs).
+    assert (Hp : lenN p = w) by (unfold p; rewrite lenN_firstn'; lia).
+    exists (VUint (le_val p) :: vs). split; [cbn [length]; lia|]. split.
+    + cbn [forallb]. rewrite Hty, andb_true_r. cbn [has_type]. apply N.ltb_lt.
+      rewrite <- pow256. pose proof (le_val_bound p) as Hb. rewrite Hp in Hb. exact Hb.
+    + cbn [flat_map]. rewrite <- Hbs. cbn [spec_ser].
+      replace (nat_of w) with (length p) at 1 by (unfold lenN, nat_of in *; lia).
+      rewrite le_bytes_le_val. symmetry. apply firstn_skipn_N.
+Qed.
+
+Lemma ser_series_fixed e vs : spec_is_fixed e = true ->
+  ser_parts (map (fun x => (spec_is_fixed e, spec_ser e x)) vs) = concat (map (spec_ser e) vs).
+Proof. intros ->. apply ser_parts_all_fixed. Qed.
+
+Lemma ser_series_uint w vs :
+  ser_parts (map (fun x => (spec_is_fixed (TUint w), spec_ser (TUint w) x)) vs) =
+  flat_map (spec_ser (TUint w)) vs.
+Proof. rewrite ser_series_fixed by reflexivity. symmetry. apply flat_map_concat_map. Qed.
+
+(* ---- series of variable-size parts ---- *)
+Fixpoint offs_of (cur : N) (qs : list (list byte)) : list N :=
+  match qs with [] => [] | q :: r => cur :: offs_of (cur + lenN q) r end.
+
+Definition var_parts (qs : list (list byte)) : list part := map (fun q => (false, q)) qs.
+
+Lemma layout_var_fixed : forall qs cur,
+  flat_map pf_fixed (layout cur (var_parts qs)) = flat_map (le_bytes 4) (offs_of cur qs).
+Proof.
+  induction qs as [|q qs IH]; intros cur; [reflexivity|].
+  cbn [var_parts map layout flat_map pf_fixed offs_of]. fold (var_parts qs). rewrite IH. reflexivity.
+Qed.
+
+Lemma layout_var_var : forall qs cur, flat_map pf_var (layout cur (var_parts qs)) = concat qs.
+Proof.
+  induction qs as [|q qs IH]; intros cur; [reflexivity|].
+  cbn [var_parts map layout flat_map pf_var concat]. fold (var_parts qs). rewrite IH. reflexivity.
+Qed.
+
+Lemma offs_of_length : forall qs cur, length (offs_of cur qs) = length qs.
+Proof. induction qs as [|q qs IH]; intros cur; cbn [offs_of length]; [reflexivity|]. rewrite IH. reflexivity. Qed.
+
+Lemma lenN_flat_map_le4 offs : lenN (flat_map (le_bytes 4) offs) = 4 * lenN offs.
+Proof.
+  induction offs as [|o r IH]; [reflexivity|].
+  cbn [flat_map]. rewrite lenN_app, IH, lenN_cons. unfold lenN at 1. rewrite le_bytes_length. lia.
+Qed.
+
+Lemma ser_parts_all_var qs :
+  ser_parts (var_parts qs) = flat_map (le_bytes 4) (offs_of (4 * lenN qs) qs) ++ concat qs.
+Proof.
+  pose proof (ser_parts_layout (layout (4 * lenN qs) (var_parts qs))) as H.
+  rewrite layout_parts, layout_var_fixed, layout_var_var in H. apply H.
+  rewrite lenN_flat_map_le4. unfold lenN at 1. rewrite offs_of_length. apply layout_ok.
+Qed.
+
+Lemma ser_series_var e vs : spec_is_fixed e = false ->
+  map (fun x => (spec_is_fixed e, spec_ser e x)) vs = var_parts (map (spec_ser e) vs).
+Proof. intros ->. unfold var_parts. rewrite map_map. reflexivity. Qed.
+
+Lemma flat_map_cons' {A B} (f : A -> list B) x l : flat_map f (x :: l) = f x ++ flat_map f l.
+Proof. reflexivity. Qed.
+
+Lemma s_offsets_S k prev bs :
+  s_offsets (S k) prev bs =
+  if lenN bs <? 4 then None else
+  if le_val (firstn 4 bs) <? prev then None else
+  odo r <- s_offsets k (le_val (firstn 4 bs)) (skipn 4 bs); let '(offs, rest) := r in
+  Some (le_val (firstn 4 bs) :: offs, rest).
+Proof. reflexivity. Qed.
+
+Lemma s_offsets_shape : forall count prev bs offs rest,
+  s_offsets count prev bs = Some (offs, rest) ->
+  bs = flat_map (le_bytes 4) offs ++ rest /\ length offs = count /\
+  sorted_from prev offs /\ Forall (fun o => o < two32) offs.
+Proof.
+  induction count as [|k IH]; intros prev bs offs rest H.
+  - cbn [s_offsets] in H. injection H as <- <-. repeat split; constructor.
+  - rewrite s_offsets_S in H. destruct (N.ltb_spec (lenN bs) 4) as [|Hl]; [discriminate H|].
+    destruct (N.ltb_spec (le_val (firstn 4 bs)) prev) as [|Hp]; [discriminate H|].
+    obindS H E. destruct p as [offs' rest'].
+    assert (Ho : offs = le_val (firstn 4 bs) :: offs' /\ rest = rest') by (split; congruence).
+    destruct Ho as [-> ->]. clear H.
+    destruct (IH _ _ _ _ E) as (Hbs & Hlen & Hso & Hlt).
+    assert (Hl4 : length (firstn 4 bs) = 4%nat) by (rewrite firstn_length; unfold lenN in Hl; lia).
+    repeat split.
+    + rewrite flat_map_cons', <- app_assoc, <- Hbs.
+      replace (le_bytes 4 (le_val (firstn 4 bs))) with (firstn 4 bs)
+        by (rewrite <- Hl4 at 2; symmetry; apply le_bytes_le_val).
+      symmetry. apply firstn_skipn.
+    + cbn [length]. lia.
+    + exact Hp.
+    + exact Hso.
+    + constructor; [|exact Hlt]. apply le_val_4_bound. unfold lenN. lia.
+Qed.
+
+Lemma s_offsets_complete : forall offs prev rest,
+  sorted_from prev offs -> Forall (fun o => o < two32) offs ->
+  s_offsets (length offs) prev (flat_map (le_bytes 4) offs ++ rest) = Some (offs, rest).
+Proof.
+  induction offs as [|o r IH]; intros prev rest Hso Hlt; [reflexivity|].
+  destruct Hso as [Hp Hso]. pose proof (Forall_inv Hlt) as Ho. cbv beta in Ho.
+  cbn [length flat_map s_offsets]. rewrite <- app_assoc, lenN_app.
+  unfold lenN at 1. rewrite le_bytes_length.
+  destruct (N.ltb_spec (N.of_nat 4 + lenN (flat_map (le_bytes 4) r ++ rest)) 4); [lia|].
+  assert (Hf : firstn 4 (le_bytes 4 o ++ flat_map (le_bytes 4) r ++ rest) = le_bytes 4 o).
+  { rewrite firstn_app, le_bytes_length, Nat.sub_diag, firstn_O, app_nil_r.
+    apply firstn_all2. rewrite le_bytes_length. lia. }
+  assert (Hs : skipn 4 (le_bytes 4 o ++ flat_map (le_bytes 4) r ++ rest) = flat_map (le_bytes 4) r ++ rest).
+  { rewrite skipn_app, le_bytes_length, Nat.sub_diag, skipn_O.
+    rewrite skipn_all2 by (rewrite le_bytes_length; lia). reflexivity. }
+  rewrite Hf, Hs, le_val_u32 by exact Ho.
+  destruct (N.ltb_spec o prev); [lia|]. rewrite (IH _ _ Hso (Forall_inv_tail Hlt)). reflexivity.
+Qed.
+
+Lemma s_var_elems_shape sd scope : forall offs o1 R ns,
+  sorted_from o1 offs -> lenN R = scope - o1 ->
+  s_var_elems sd (o1 :: offs) scope R = Some ns ->
+  exists qs, R = concat qs /\ decs sd qs ns /\ offs_of o1 qs = o1 :: offs /\
+             o1 + lenN R = scope.
+Proof.
+  induction offs as [|o' rest IH]; intros o1 R ns Hso HR H.
+  - cbn [s_var_elems] in H. destruct (N.ltb_spec scope o1) as [|Hs]; [discriminate H|].
+    destruct (_ <? _); [discriminate H|]. obindS H E. injection H as <-.
+    rewrite <- HR in E. unfold nat_of, lenN in E. rewrite Nat2N.id, firstn_all in E.
+    exists [R]. cbn [concat offs_of]. rewrite app_nil_r. repeat split; [|lia].
+    constructor; [exact E|constructor].
+  - destruct Hso as [Hle Hso]. rewrite s_var_elems_cons2 in H.
+    destruct (N.ltb_spec (lenN R) (o' - o1)) as [|Hl]; [discriminate H|].
+    obindS H E1. obindS H E2. injection H as <-.
+    assert (HR2 : lenN (skipn (nat_of (o' - o1)) R) = scope - o') by (rewrite lenN_skipn'; lia).
+    destruct (IH o' (skipn (nat_of (o' - o1)) R) l Hso HR2 E2) as (qs & HR' & Hd & Hoffs & Hend).
+    rewrite lenN_skipn' in Hend.
+    exists (firstn (nat_of (o' - o1)) R :: qs). cbn [concat offs_of].
+    rewrite lenN_firstn'. replace (o1 + N.min (o' - o1) (lenN R)) with o' by lia.
+    rewrite <- HR', Hoffs. repeat split; [symmetry; apply firstn_skipn_N| |lia].
+    constructor; assumption.
+Qed.
+
+Lemma s_var_elems_complete sd scope : forall qs ns,
+  decs sd qs ns -> forall o1, qs <> [] -> o1 + lenN (concat qs) = scope ->
+  s_var_elems sd (offs_of o1 qs) scope (concat qs) = Some ns.
+Proof.
+  induction 1 as [|q n qs ns Hq Hd IH]; intros o1 Hne Hend; [congruence|].
+  cbn [concat] in *. rewrite lenN_app in Hend.
+  assert (Hn : nat_of (lenN q) = length q) by (unfold nat_of, lenN; lia).
+  destruct qs as [|q' qs'].
+  - assert (ns = []) as -> by (inversion Hd; reflexivity).
+    cbn [offs_of concat s_var_elems] in *. rewrite app_nil_r in *.
+    change (lenN (@nil byte)) with 0 in Hend.
+    destruct (N.ltb_spec scope o1); [lia|].
+    replace (scope - o1) with (lenN q) by lia.
+    destruct (N.ltb_spec (lenN q) (lenN q)); [lia|].
+    rewrite Hn, firstn_all, Hq. reflexivity.
+  - cbn [offs_of]. rewrite s_var_elems_cons2.
+    replace (o1 + lenN q - o1) with (lenN q) by lia. rewrite lenN_app.
+    destruct (N.ltb_spec (lenN q + lenN (concat (q' :: qs'))) (lenN q)); [lia|].
+    rewrite Hn, firstn_app, Nat.sub_diag, firstn_all, firstn_O, app_nil_r, Hq. cbn [obind].
+    rewrite skipn_app, Nat.sub_diag, skipn_all, skipn_O. cbn [app].
+    change (o1 + lenN q :: offs_of (o1 + lenN q + lenN q') qs') with (offs_of (o1 + lenN q) (q' :: qs')).
+    rewrite IH; [reflexivity|discriminate|lia].
+Qed.
+
+Lemma offs_of_sorted : forall qs cur, sorted_from cur (offs_of cur qs).
+Proof.
+  induction qs as [|q qs IH]; intros cur; cbn [offs_of sorted_from]; [exact I|].
+  split; [lia|]. destruct qs as [|q' qs']; [exact I|]. cbn [offs_of sorted_from].
+  split; [lia|]. specialize (IH (cur + lenN q)). cbn [offs_of sorted_from] in IH. exact (proj2 IH).
+Qed.
+
+Lemma offs_of_bound : forall qs cur bound, cur + lenN (concat qs) <= bound ->
+  Forall (fun o => o <= bound) (offs_of cur qs).
+Proof.
+  induction qs as [|q qs IH]; intros cur bound H; cbn [offs_of]; [constructor|].
+  cbn [concat] in H. rewrite lenN_app in H. constructor; [lia|]. apply IH. lia.
+Qed.
+
+(* ---- vectors ---- *)
+Lemma has_type_vector e n vs :
+  has_type (VSeq vs) (TVector e n) = (lenN vs =? n) && forallb (fun x => has_type x e) vs.
+Proof. reflexivity. Qed.
+Lemma has_type_list e n vs :
+  has_type (VSeq vs) (TList e n) = (lenN vs <=? n) && forallb (fun x => has_type x e) vs.
+Proof. reflexivity. Qed.
+Lemma spec_ser_vector e n vs :
+  spec_ser (TVector e n) (VSeq vs) = ser_parts (map (fun x => (spec_is_fixed e, spec_ser e x)) vs).
+Proof. reflexivity. Qed.
+Lemma spec_ser_list e n vs :
+  spec_ser (TList e n) (VSeq vs) = ser_parts (map (fun x => (spec_is_fixed e, spec_ser e x)) vs).
+Proof. reflexivity. Qed.
+
+Lemma is_basic_uint e : is_basic_elem e = true -> exists w, e = TUint w.
+Proof. destruct e; intros H; try discriminate H. eexists; reflexivity. Qed.
+
+Lemma uint_width_pos w : uint_width_ok w = true -> 1 <= w.
+Proof.
+  unfold uint_width_ok. intros H.
+  repeat (apply orb_prop in H; destruct H as [H|H]); apply N.eqb_eq in H; lia.
+Qed.
+
+Lemma lenN_map' {A B} (f : A -> B) l : lenN (map f l) = lenN l.
+Proof. unfold lenN. rewrite map_length. reflexivity. Qed.
+
+Lemma lenN_nat_of {A} (l : list A) n : length l = nat_of n -> lenN l = n.
+Proof. intros H. unfold lenN, nat_of in *. lia. Qed.
+
+Lemma sorted_from_weaken l a b : b <= a -> sorted_from a l -> sorted_from b l.
+Proof. destruct l as [|o r]; [auto|]. intros H [H1 H2]. split; [lia|exact H2]. Qed.
+
+Lemma Forall_lt_of_le (l : list N) b c : b < c -> Forall (fun o => o <= b) l -> Forall (fun o => o < c) l.
+Proof. intros H HF. eapply Forall_impl; [|exact HF]. cbv beta. intros; lia. Qed.
+
+Lemma canon_vector e n :
+  wf_ty (TVector e n) = true -> small_params (TVector e n) = true ->
+  sizes_ok (TVector e n) = true -> canon_ty e -> canon_ty (TVector e n).
+Proof.
+  intros Hwf Hsp Hso Hce bs nd H.
+  pose proof Hsp as Hsp'. cbn [small_params] in Hsp'. apply andb_prop in Hsp'.
+  destruct Hsp' as [Hn56 _]. apply N.leb_le in Hn56.
+  pose proof Hwf as Hwf'. cbn [wf_ty] in Hwf'. apply andb_prop in Hwf'.
+  destruct Hwf' as [Hn1 Hwfe]. apply N.leb_le in Hn1.
+  cbn [sdec] in H.
+  destruct (is_basic_elem e) eqn:Hbasic; [|destruct (ti_fixed (info e)) eqn:Hfx].
+  - destruct (is_basic_uint e Hbasic) as [w ->]. cbn [wf_ty] in Hwfe.
+    ifErr H. apply negb_false_iff, N.eqb_eq in Heqb.
+    rewrite (vector_fixed_size _ n Hsp Hso eq_refl) in Heqb. cbn [info ti_size] in Heqb.
+    apply r2o_some in H.
+    destruct (uint_series_decode w (uint_width_pos w Hwfe) (nat_of n) bs) as (vs & Hlen & Hty & ->).
+    { rewrite N_of_nat_of. symmetry. exact Heqb. }
+    apply lenN_nat_of in Hlen.
+    destruct (build_vector_uint w n vs Hwfe Hn56 Hlen Hty) as (nd' & E & R).
+    rewrite E in H. injection H as <-.
+    exists (VSeq vs). split; [|split; [|exact R]].
+    + rewrite has_type_vector, Hlen, N.eqb_refl, Hty. reflexivity.
+    + rewrite spec_ser_vector, ser_series_uint. reflexivity.
+  - ifErr H. apply negb_false_iff, N.eqb_eq in Heqb.
+    rewrite (vector_fixed_size _ n Hsp Hso Hfx) in Heqb.
+    obindS H E. apply r2o_some in H.
+    destruct (s_fixed_series_shape _ _ _ _ _ E) as (pieces & rest & Hbs & Hd & Hsz & Hlen).
+    apply lenN_nat_of in Hlen.
+    assert (Hrest : rest = []).
+    { assert (Hl : lenN bs = lenN (concat pieces) + lenN rest) by (rewrite Hbs, lenN_app; reflexivity).
+      rewrite (lenN_concat_const _ _ Hsz), Hlen in Hl.
+      destruct rest; [reflexivity|]. rewrite lenN_cons in Hl. lia. }
+    subst rest. rewrite app_nil_r in Hbs. subst bs.
+    destruct (elems_canon e pieces l Hce Hd) as (vs & Hty & -> & Hr).
+    rewrite lenN_map' in Hlen.
+    destruct (build_vector_nb e n l vs Hbasic Hn56 Hr Hlen) as (nd' & E' & R).
+    rewrite E' in H. injection H as <-.
+    exists (VSeq vs). split; [|split; [|exact R]].
+    + rewrite has_type_vector, Hlen, N.eqb_refl, Hty. reflexivity.
+    + rewrite spec_ser_vector, ser_series_fixed by (rewrite <- info_fixed_flag; exact Hfx). reflexivity.
+  - obindS H E. destruct p as [offs rest]. ifErr H.
+    apply negb_false_iff, N.eqb_eq in Heqb. rewrite mul64_4 in Heqb by exact Hn56.
+    obindS H E2. apply r2o_some in H.
+    destruct (s_offsets_shape _ _ _ _ _ E) as (Hbs & Hlen & Hsorted & Hlt).
+    apply lenN_nat_of in Hlen.
+    destruct offs as [|o1 offs]; [change (lenN (@nil N)) with 0 in Hlen; lia|].
+    cbn [hd] in Heqb. subst o1. destruct Hsorted as [_ Hsorted].
+    assert (HlenR : lenN rest = lenN bs - 4 * n).
+    { rewrite Hbs, lenN_app, lenN_flat_map_le4, Hlen. lia. }
+    destruct (s_var_elems_shape _ _ _ _ _ _ Hsorted HlenR E2) as (qs & HR & Hd & Hoffs & _).
+    destruct (elems_canon e qs l Hce Hd) as (vs & Hty & -> & Hr).
+    assert (Hlvs : lenN vs = n).
+    { rewrite <- Hlen, <- Hoffs. unfold lenN. rewrite offs_of_length, map_length. reflexivity. }
+    destruct (build_vector_nb e n l vs Hbasic Hn56 Hr Hlvs) as (nd' & E' & R).
+    rewrite E' in H. injection H as <-.
+    exists (VSeq vs). split; [|split; [|exact R]].
+    + rewrite has_type_vector, Hlvs, N.eqb_refl, Hty. reflexivity.
+    + rewrite spec_ser_vector, ser_series_var by (rewrite <- info_fixed_flag; exact Hfx).
+      rewrite ser_parts_all_var, lenN_map', Hlvs, Hoffs, <- HR. exact Hbs.
+Qed.
+
+Lemma compl_vector e n :
+  wf_ty (TVector e n) = true -> small_params (TVector e n) = true ->
+  sizes_ok (TVector e n) = true -> compl_ty e -> compl_ty (TVector e n).
+Proof.
+  intros Hwf Hsp Hso Hce v Hty Hlt.
+  pose proof Hsp as Hsp'. cbn [small_params] in Hsp'. apply andb_prop in Hsp'.
+  destruct Hsp' as [Hn56 Hspe]. apply N.leb_le in Hn56.
+  pose proof Hso as Hso'. cbn [sizes_ok] in Hso'. apply andb_prop in Hso'. destruct Hso' as [_ Hsoe].
+  pose proof Hwf as Hwf'. cbn [wf_ty] in Hwf'. apply andb_prop in Hwf'.
+  destruct Hwf' as [Hn1 Hwfe]. apply N.leb_le in Hn1.
+  destruct v; try discriminate Hty. rewrite has_type_vector in Hty. apply andb_prop in Hty.
+  destruct Hty as [Hlen Htys]. apply N.eqb_eq in Hlen.
+  rewrite spec_ser_vector in *. cbn [sdec].
+  destruct (is_basic_elem e) eqn:Hbasic; [|destruct (ti_fixed (info e)) eqn:Hfx].
+  - destruct (is_basic_uint e Hbasic) as [w ->]. cbn [wf_ty] in Hwfe.
+    rewrite ser_series_uint in *.
+    rewrite (vector_fixed_size _ n Hsp Hso eq_refl). cbn [info ti_size].
+    rewrite lenN_flat_map_uint, Hlen, N.eqb_refl by exact Htys. cbn [negb].
+    destruct (build_vector_uint w n vs Hwfe Hn56 Hlen Htys) as (nd & E & R).
+    exists nd. rewrite E. split; [reflexivity|exact R].
+  - assert (Hsf : spec_is_fixed e = true) by (rewrite <- info_fixed_flag; exact Hfx).
+    rewrite ser_series_fixed in * by exact Hsf.
+    destruct (elems_compl e vs Hce Htys) as (ns & Hd & Hr).
+    { pose proof (series_elem_len true (spec_ser e) vs) as HF.
+      rewrite <- Hsf, ser_series_fixed in HF by exact Hsf.
+      eapply Forall_impl; [|exact HF]. cbv beta. intros; lia. }
+    assert (Hsz : Forall (fun p => lenN p = ti_size (info e)) (map (spec_ser e) vs)).
+    { destruct (info_ok_of e Hspe Hsoe) as (_ & _ & ->). apply Forall_forall.
+      intros p Hin. apply in_map_iff in Hin. destruct Hin as (x & <- & Hx).
+      apply spec_ser_fixed_len; [exact Hsf|]. rewrite forallb_forall in Htys. apply Htys, Hx. }
+    rewrite (vector_fixed_size _ n Hsp Hso Hfx).
+    rewrite (lenN_concat_const _ _ Hsz), lenN_map', Hlen, N.eqb_refl. cbn [negb].
+    pose proof (s_fixed_series_complete (sdc e) _ _ _ [] Hd Hsz) as Hser.
+    rewrite app_nil_r, map_length in Hser.
+    replace (nat_of n) with (length vs) by (unfold nat_of, lenN in *; lia).
+    rewrite Hser. cbn [obind].
+    destruct (build_vector_nb e n ns vs Hbasic Hn56 Hr Hlen) as (nd & E & R).
+    exists nd. rewrite E. split; [reflexivity|exact R].
+  - assert (Hsf : spec_is_fixed e = false) by (rewrite <- info_fixed_flag; exact Hfx).
+    rewrite ser_series_var in * by exact Hsf. set (qs := map (spec_ser e) vs) in *.
+    rewrite ser_parts_all_var in *.
+    assert (Hlq : lenN qs = n) by (unfold qs; rewrite lenN_map'; exact Hlen).
+    rewrite Hlq in *.
+    destruct (elems_compl e vs Hce Htys) as (ns & Hd & Hr).
+    { pose proof (series_elem_len false (spec_ser e) vs) as HF.
+      rewrite <- Hsf, ser_series_var in HF by exact Hsf. fold qs in HF.
+      rewrite ser_parts_all_var, Hlq in HF.
+      eapply Forall_impl; [|exact HF]. cbv beta. intros; lia. }
+    fold qs in Hd.
+    set (offs := offs_of (4 * n) qs) in *.
+    assert (Hlo : length offs = nat_of n).
+    { unfold offs. rewrite offs_of_length. unfold nat_of, lenN in *. lia. }
+    assert (Htot : lenN (flat_map (le_bytes 4) offs ++ concat qs) = 4 * n + lenN (concat qs)).
+    { rewrite lenN_app, lenN_flat_map_le4. unfold lenN at 1. rewrite Hlo, N_of_nat_of. reflexivity. }
+    rewrite Htot in Hlt.
+    rewrite <- Hlo, s_offsets_complete.
+    + cbn [obind]. destruct qs as [|q qs'] eqn:Eqs; [change (lenN (@nil (list byte))) with 0 in Hlq; lia|].
+      rewrite <- Eqs in *. assert (Hoffs : offs = 4 * n :: tl offs) by (unfold offs; rewrite Eqs; reflexivity).
+      rewrite Hoffs at 1. cbn [hd]. rewrite mul64_4, N.eqb_refl by exact Hn56. cbn [negb].
+      rewrite Htot. unfold offs.
+      rewrite (s_var_elems_complete (sdc e) _ _ _ Hd); [|rewrite Eqs; discriminate|reflexivity].
+      cbn [obind].
+      destruct (build_vector_nb e n ns vs Hbasic Hn56 Hr Hlen) as (nd & E & R).
+      exists nd. rewrite E. split; [reflexivity|exact R].
+    + apply (sorted_from_weaken _ (4 * n)); [lia|apply offs_of_sorted].
+    + apply (Forall_lt_of_le _ (4 * n + lenN (concat qs))); [exact Hlt|].
+      apply offs_of_bound. lia.
 Qed.
